@@ -4,13 +4,1596 @@ C12 — a resumable subscription sees each event of its type once across restart
 -/
 namespace Ebu.Resume
 
+namespace Aux
+
+def bump (s : RS) : RS := { s with nops := s.nops + 1 }
+def deliver (s : RS) (id r : Nat) : RS := { s with delivered := s.delivered ++ [(id, r)] }
+def app (s : RS) (ty r : Nat) : RS := { s with log := s.log ++ [(ty, r)], last := s.log.length + 1 }
+def cd (c : Bool) (s : RS) : RS := if c then die s else s
+def sv (f : Bool) (s : RS) (id off : Nat) : RS := if f then s else save s id off
+def failsAt (p : Plan) (s : RS) : Bool := p.failAt == some (s.nops + 1)
+def crashAt (p : Plan) (s : RS) : Bool := p.crashAfter == some (s.nops + 1)
+
+theorem deliverAndSave_eq (p : Plan) (s : RS) (id r off : Nat) :
+    deliverAndSave p s id r off =
+      if off = 0 then deliver s id r
+      else cd (crashAt p s) (sv (failsAt p s) (bump (deliver s id r)) id off) := rfl
+
+def pstep (p : Plan) (ty r : Nat) (s : RS) (l : Nat × Nat) : RS :=
+  if s.dead || l.2 != ty then s else deliverAndSave p s l.1 r s.last
+
+theorem publish_eq (p : Plan) (s : RS) (ty r : Nat) :
+    publish p s ty r =
+      let s2 := if failsAt p s then bump s else app (bump s) ty r
+      if crashAt p s then die s2 else s2.live.foldl (pstep p ty r) s2 := rfl
+
+def nest (p : Plan) (pd : Option (Nat × Nat)) (first : Bool) (s : RS) : RS :=
+  match (if first then pd else none) with
+  | some (t', r') => publish p s t' r'
+  | none => s
+
+def fin (p : Plan) (id off : Nat) (s : RS) : RS :=
+  if s.dead then s else cd (crashAt p s) (sv (failsAt p s) (bump s) id off)
+
+def rstep (p : Plan) (id ty : Nat) (pd : Option (Nat × Nat)) (acc : RS × Bool) (e : Nat × Nat × Nat) : RS × Bool :=
+  if acc.1.dead || e.2.1 != ty then acc
+  else (fin p id e.1 (nest p pd acc.2 (deliver acc.1 id e.2.2)), false)
+
+def rstep0 (p : Plan) (id ty : Nat) (pd : Option (Nat × Nat)) (acc : RS × Bool) (e : Nat × Nat × Nat) : RS × Bool :=
+  if acc.1.dead || e.2.1 != ty then acc
+  else
+    let s2 := nest p pd acc.2 (deliver acc.1 id e.2.2)
+    if s2.dead then (s2, false)
+    else (cd (crashAt p s2) (sv (failsAt p s2) (bump s2) id e.1), false)
+
+theorem rstep0_eq (p : Plan) (id ty : Nat) (pd : Option (Nat × Nat)) : rstep0 p id ty pd = rstep p id ty pd := by
+  funext acc e
+  unfold rstep0 rstep fin
+  split
+  · rfl
+  · simp only []; split <;> rfl
+
+theorem subscribe_eq0 (p : Plan) (s : RS) (id ty : Nat) (pd : Option (Nat × Nat)) :
+    subscribe p s id ty pd =
+      if crashAt p s then die (bump s)
+      else if failsAt p s then { bump s with errs := s.errs ++ [id] }
+      else
+        let s1 := bump s
+        if crashAt p s1 then die (bump s1)
+        else if failsAt p s1 then { bump s1 with errs := s1.errs ++ [id] }
+        else
+          let s2 := ((eventsAfter s.log (savedOf s id)).foldl (rstep0 p id ty pd) (bump s1, true)).1
+          if s2.dead then s2 else { s2 with live := s2.live ++ [(id, ty)] } := by
+  rfl
+
+def err (s : RS) (id : Nat) : RS := { s with errs := s.errs ++ [id] }
+def addLive (s : RS) (id ty : Nat) : RS := { s with live := s.live ++ [(id, ty)] }
+
+theorem subscribe_eq (p : Plan) (s : RS) (id ty : Nat) (pd : Option (Nat × Nat)) :
+    subscribe p s id ty pd =
+      if crashAt p s then die (bump s)
+      else if failsAt p s then err (bump s) id
+      else
+        if crashAt p (bump s) then die (bump (bump s))
+        else if failsAt p (bump s) then err (bump (bump s)) id
+        else
+          let s2 := ((eventsAfter s.log (savedOf s id)).foldl (rstep p id ty pd) (bump (bump s), true)).1
+          if s2.dead then s2 else addLive s2 id ty := by
+  rw [subscribe_eq0, rstep0_eq]; rfl
+
+def evsFrom : Nat → List (Nat × Nat) → List (Nat × Nat × Nat)
+  | _, [] => []
+  | k, e :: l => (k + 1, e.1, e.2) :: evsFrom (k + 1) l
+
+theorem evs_aux (f : Nat) : ∀ (l : List (Nat × Nat)) (k : Nat),
+    ((List.range' k l.length).zip l).filterMap
+      (fun (x : Nat × Nat × Nat) => if f < x.1 + 1 then some (x.1 + 1, x.2.1, x.2.2) else none)
+      = evsFrom (max f k) (l.drop (f - k)) := by
+  intro l
+  induction l with
+  | nil => intro k; simp [evsFrom]
+  | cons e l ih =>
+    intro k
+    simp only [List.length_cons, List.range'_succ, List.zip_cons_cons, List.filterMap_cons]
+    by_cases h : f < k + 1
+    · have h1 : f - k = 0 := by omega
+      have h2 : max f k = k := by omega
+      have h3 : max f (k+1) = k + 1 := by omega
+      have h4 : f - (k+1) = 0 := by omega
+      simp only [h, if_true, ih (k+1), h1, h2, h3, h4, List.drop_zero, evsFrom]
+    · have h1 : f - k = (f - (k+1)) + 1 := by omega
+      have h2 : max f k = max f (k+1) := by omega
+      simp only [h, if_false, ih (k+1), h1, h2, List.drop_succ_cons]
+
+theorem eventsAfter_eq (log : List (Nat × Nat)) (f : Nat) :
+    eventsAfter log f = evsFrom f (log.drop f) := by
+  have := evs_aux f log 0
+  simp only [Nat.sub_zero, Nat.max_zero] at this
+  rw [← this]
+  simp only [eventsAfter, List.range_eq_range']
+
+
+/-! ### saved offsets stay within the log -/
+
+def W (s : RS) : Prop := (∀ q ∈ s.saved, q.2 ≤ s.log.length) ∧ s.last ≤ s.log.length
+
+theorem savedOf_le_of_W {s : RS} (h : W s) (id : Nat) : savedOf s id ≤ s.log.length := by
+  unfold savedOf
+  cases hf : s.saved.find? (fun p => p.1 == id) with
+  | none => simp
+  | some q => exact h.1 q (List.mem_of_find?_eq_some hf)
+
+theorem W_bump {s : RS} (h : W s) : W (bump s) := h
+theorem W_deliver {s : RS} (h : W s) (id r : Nat) : W (deliver s id r) := h
+theorem W_die {s : RS} (h : W s) : W (die s) := ⟨h.1, Nat.zero_le _⟩
+theorem W_cd {s : RS} (h : W s) (c : Bool) : W (cd c s) := by
+  unfold cd; split
+  · exact W_die h
+  · exact h
+theorem W_save {s : RS} (h : W s) (id off : Nat) (ho : off ≤ s.log.length) : W (save s id off) := by
+  refine ⟨?_, h.2⟩
+  intro q hq
+  simp only [save, List.mem_cons, List.mem_filter] at hq
+  rcases hq with rfl | ⟨hq, _⟩
+  · exact ho
+  · exact h.1 q hq
+theorem W_sv {s : RS} (h : W s) (f : Bool) (id off : Nat) (ho : off ≤ s.log.length) : W (sv f s id off) := by
+  unfold sv; split
+  · exact h
+  · exact W_save h id off ho
+theorem W_app {s : RS} (h : W s) (ty r : Nat) : W (app s ty r) := by
+  refine ⟨?_, ?_⟩
+  · intro q hq
+    have := h.1 q hq
+    simp only [app, List.length_append, List.length_cons, List.length_nil]
+    omega
+  · simp [app]
+
+@[simp] theorem log_bump (s : RS) : (bump s).log = s.log := rfl
+@[simp] theorem log_deliver (s : RS) (id r : Nat) : (deliver s id r).log = s.log := rfl
+@[simp] theorem log_die (s : RS) : (die s).log = s.log := rfl
+@[simp] theorem log_save (s : RS) (id off : Nat) : (save s id off).log = s.log := rfl
+@[simp] theorem log_cd (c : Bool) (s : RS) : (cd c s).log = s.log := by unfold cd; split <;> rfl
+@[simp] theorem log_sv (f : Bool) (s : RS) (id off : Nat) : (sv f s id off).log = s.log := by
+  unfold sv; split <;> rfl
+@[simp] theorem log_app (s : RS) (ty r : Nat) : (app s ty r).log = s.log ++ [(ty, r)] := rfl
+
+theorem log_deliverAndSave (p : Plan) (s : RS) (id r off : Nat) :
+    (deliverAndSave p s id r off).log = s.log := by
+  rw [deliverAndSave_eq]; split <;> simp
+
+theorem W_deliverAndSave {s : RS} (h : W s) (p : Plan) (id r off : Nat) (ho : off ≤ s.log.length) :
+    W (deliverAndSave p s id r off) := by
+  rw [deliverAndSave_eq]; split
+  · exact W_deliver h id r
+  · exact W_cd (W_sv (W_bump (W_deliver h id r)) _ id off ho) _
+
+theorem W_pstep {s : RS} (h : W s) (p : Plan) (ty r : Nat) (l : Nat × Nat) :
+    W (pstep p ty r s l) ∧ (pstep p ty r s l).log = s.log := by
+  unfold pstep; split
+  · exact ⟨h, rfl⟩
+  · exact ⟨W_deliverAndSave h p _ r _ h.2, log_deliverAndSave ..⟩
+
+theorem W_pfold (p : Plan) (ty r : Nat) : ∀ (L : List (Nat × Nat)) (s : RS), W s →
+    W (L.foldl (pstep p ty r) s) ∧ (L.foldl (pstep p ty r) s).log = s.log := by
+  intro L
+  induction L with
+  | nil => intro s h; exact ⟨h, rfl⟩
+  | cons l L ih =>
+    intro s h
+    have h1 := W_pstep h p ty r l
+    have h2 := ih _ h1.1
+    exact ⟨h2.1, h2.2.trans h1.2⟩
+
+theorem W_publish {s : RS} (h : W s) (p : Plan) (ty r : Nat) :
+    W (publish p s ty r) ∧ s.log.length ≤ (publish p s ty r).log.length := by
+  rw [publish_eq]
+  have hs2 : W (if failsAt p s then bump s else app (bump s) ty r) ∧
+      s.log.length ≤ (if failsAt p s then bump s else app (bump s) ty r).log.length := by
+    split
+    · exact ⟨W_bump h, Nat.le_refl _⟩
+    · exact ⟨W_app (W_bump h) ty r, by simp⟩
+  generalize (if failsAt p s then bump s else app (bump s) ty r) = s2 at hs2
+  simp only []
+  split
+  · exact ⟨W_die hs2.1, hs2.2⟩
+  · have := W_pfold p ty r s2.live s2 hs2.1
+    exact ⟨this.1, by rw [this.2]; exact hs2.2⟩
+
+theorem W_nest {s : RS} (h : W s) (p : Plan) (pd : Option (Nat × Nat)) (first : Bool) :
+    W (nest p pd first s) ∧ s.log.length ≤ (nest p pd first s).log.length := by
+  unfold nest; split
+  · exact W_publish h p _ _
+  · exact ⟨h, Nat.le_refl _⟩
+
+theorem W_fin {s : RS} (h : W s) (p : Plan) (id off : Nat) (ho : off ≤ s.log.length) :
+    W (fin p id off s) ∧ (fin p id off s).log = s.log := by
+  unfold fin; split
+  · exact ⟨h, rfl⟩
+  · exact ⟨W_cd (W_sv (W_bump h) _ _ _ ho) _, by simp⟩
+
+theorem W_rstep (p : Plan) (id ty : Nat) (pd : Option (Nat × Nat)) (acc : RS × Bool) (e : Nat × Nat × Nat)
+    (h : W acc.1) (he : e.1 ≤ acc.1.log.length) :
+    W (rstep p id ty pd acc e).1 ∧ acc.1.log.length ≤ (rstep p id ty pd acc e).1.log.length := by
+  unfold rstep; split
+  · exact ⟨h, Nat.le_refl _⟩
+  · have h1 := W_nest (W_deliver h id e.2.2) p pd acc.2
+    have h2 := W_fin h1.1 p id e.1 (Nat.le_trans he h1.2)
+    exact ⟨h2.1, by rw [h2.2]; exact h1.2⟩
+
+theorem W_rfold (p : Plan) (id ty : Nat) (pd : Option (Nat × Nat)) :
+    ∀ (evs : List (Nat × Nat × Nat)) (acc : RS × Bool), W acc.1 → (∀ e ∈ evs, e.1 ≤ acc.1.log.length) →
+      W (evs.foldl (rstep p id ty pd) acc).1 := by
+  intro evs
+  induction evs with
+  | nil => intro acc h _; exact h
+  | cons e evs ih =>
+    intro acc h he
+    have h1 := W_rstep p id ty pd acc e h (he e (List.mem_cons_self ..))
+    exact ih _ h1.1 (fun e' he' => Nat.le_trans (he e' (List.mem_cons_of_mem _ he')) h1.2)
+
+theorem mem_evsFrom : ∀ (l : List (Nat × Nat)) (k : Nat) (e : Nat × Nat × Nat),
+    e ∈ evsFrom k l → k < e.1 ∧ e.1 ≤ k + l.length := by
+  intro l
+  induction l with
+  | nil => intro k e h; simp [evsFrom] at h
+  | cons x l ih =>
+    intro k e h
+    simp only [evsFrom, List.mem_cons] at h
+    rcases h with rfl | h
+    · simp
+    · have := ih _ _ h
+      simp only [List.length_cons]; omega
+
+theorem mem_eventsAfter {log : List (Nat × Nat)} {f : Nat} {e : Nat × Nat × Nat}
+    (h : e ∈ eventsAfter log f) : f < e.1 ∧ e.1 ≤ log.length := by
+  rw [eventsAfter_eq] at h
+  have := mem_evsFrom _ _ _ h
+  simp only [List.length_drop] at this
+  omega
+
+theorem W_subscribe {s : RS} (h : W s) (p : Plan) (id ty : Nat) (pd : Option (Nat × Nat)) :
+    W (subscribe p s id ty pd) := by
+  rw [subscribe_eq]
+  split
+  · exact W_die (W_bump h)
+  split
+  · exact h
+  split
+  · exact W_die (W_bump (W_bump h))
+  split
+  · exact h
+  simp only []
+  have := W_rfold p id ty pd (eventsAfter s.log (savedOf s id)) (bump (bump s), true) h
+    (fun e he => (mem_eventsAfter he).2)
+  split
+  · exact this
+  · exact this
+
+theorem W_stepOp {s : RS} (h : W s) (p : Plan) (op : ROp) : W (stepOp p s op) := by
+  cases op with
+  | publish ty r => exact (W_publish h p ty r).1
+  | subscribe id ty pd => exact W_subscribe h p id ty pd
+  | restart => exact ⟨h.1, Nat.zero_le _⟩
+
+theorem W_foldl (p : Plan) : ∀ (ops : List ROp) (s : RS), W s → W (ops.foldl (stepOp p) s) := by
+  intro ops
+  induction ops with
+  | nil => intro s h; exact h
+  | cons op ops ih => intro s h; exact ih _ (W_stepOp h p op)
+
+theorem W_run (p : Plan) (ops : List ROp) : W (run p ops) :=
+  W_foldl p ops _ ⟨by simp, by simp⟩
+
+
+/-! ### projections of the primitive state transformers -/
+
+def liveOf (s : RS) (id : Nat) : List (Nat × Nat) := s.live.filter (fun l => l.1 == id)
+
+theorem isLive_eq (s : RS) (id : Nat) : isLive s id = !(liveOf s id).isEmpty := by
+  unfold isLive liveOf
+  induction s.live with
+  | nil => rfl
+  | cons l L ih =>
+    simp only [List.any_cons, List.filter_cons]
+    cases h : l.1 == id <;> simp [ih]
+
+theorem deliveredTo_deliver (s : RS) (i r id : Nat) :
+    deliveredTo (deliver s i r) id = deliveredTo s id ++ (if i == id then [r] else []) := by
+  simp only [deliveredTo, deliver, List.filter_append, List.map_append, List.filter_cons, List.filter_nil]
+  cases h : i == id <;> simp
+
+@[simp] theorem deliveredTo_bump (s : RS) (id : Nat) : deliveredTo (bump s) id = deliveredTo s id := rfl
+@[simp] theorem deliveredTo_save (s : RS) (i off id : Nat) : deliveredTo (save s i off) id = deliveredTo s id := rfl
+@[simp] theorem deliveredTo_die (s : RS) (id : Nat) : deliveredTo (die s) id = deliveredTo s id := rfl
+@[simp] theorem deliveredTo_app (s : RS) (ty r id : Nat) : deliveredTo (app s ty r) id = deliveredTo s id := rfl
+@[simp] theorem deliveredTo_err (s : RS) (i id : Nat) : deliveredTo (err s i) id = deliveredTo s id := rfl
+@[simp] theorem deliveredTo_addLive (s : RS) (i t id : Nat) : deliveredTo (addLive s i t) id = deliveredTo s id := rfl
+@[simp] theorem deliveredTo_cd (c : Bool) (s : RS) (id : Nat) : deliveredTo (cd c s) id = deliveredTo s id := by
+  unfold cd; split <;> rfl
+@[simp] theorem deliveredTo_sv (f : Bool) (s : RS) (i off id : Nat) :
+    deliveredTo (sv f s i off) id = deliveredTo s id := by
+  unfold sv; split <;> rfl
+
+theorem find_filter_ne (i id : Nat) (h : (i == id) = false) : ∀ (l : List (Nat × Nat)),
+    (l.filter (fun p => p.1 != i)).find? (fun p => p.1 == id) = l.find? (fun p => p.1 == id) := by
+  intro l
+  induction l with
+  | nil => rfl
+  | cons q l ih =>
+    simp only [List.filter_cons]
+    by_cases hq : q.1 = i
+    · have h1 : (q.1 != i) = false := by simp [hq]
+      have h2 : (q.1 == id) = false := by rw [hq]; exact h
+      simp only [h1, Bool.false_eq_true, if_false, List.find?_cons, h2]
+      exact ih
+    · have h1 : (q.1 != i) = true := by simp [hq]
+      simp only [h1, if_true, List.find?_cons, ih]
+
+theorem savedOf_save (s : RS) (i off id : Nat) :
+    savedOf (save s i off) id = if i == id then off else savedOf s id := by
+  unfold savedOf save
+  simp only [List.find?_cons]
+  cases h : i == id
+  · simp only [find_filter_ne i id h]; simp
+  · simp
+
+@[simp] theorem savedOf_bump (s : RS) (id : Nat) : savedOf (bump s) id = savedOf s id := rfl
+@[simp] theorem savedOf_deliver (s : RS) (i r id : Nat) : savedOf (deliver s i r) id = savedOf s id := rfl
+@[simp] theorem savedOf_die (s : RS) (id : Nat) : savedOf (die s) id = savedOf s id := rfl
+@[simp] theorem savedOf_app (s : RS) (ty r id : Nat) : savedOf (app s ty r) id = savedOf s id := rfl
+@[simp] theorem savedOf_err (s : RS) (i id : Nat) : savedOf (err s i) id = savedOf s id := rfl
+@[simp] theorem savedOf_addLive (s : RS) (i t id : Nat) : savedOf (addLive s i t) id = savedOf s id := rfl
+@[simp] theorem savedOf_cd (c : Bool) (s : RS) (id : Nat) : savedOf (cd c s) id = savedOf s id := by
+  unfold cd; split <;> rfl
+
+theorem failsAt_none (s : RS) : failsAt {} s = false := rfl
+theorem crashAt_none (s : RS) : crashAt {} s = false := rfl
+
+theorem typed_append (l1 l2 : List (Nat × Nat)) (T : Nat) : typed (l1 ++ l2) T = typed l1 T ++ typed l2 T := by
+  simp [typed, List.filter_append]
+
+theorem typed_single (e : Nat × Nat) (T : Nat) : typed [e] T = if e.1 == T then [e.2] else [] := by
+  simp only [typed, List.filter_cons, List.filter_nil]
+  cases e.1 == T <;> rfl
+
+/-! ### fault-free runs -/
+
+theorem pstep0 (ty r id : Nat) (s : RS) (l : Nat × Nat) (hd : s.dead = false) (hl : s.last = s.log.length)
+    (h0 : s.last ≠ 0) :
+    let s1 := pstep {} ty r s l
+    s1.dead = false ∧ s1.log = s.log ∧ s1.last = s.last ∧ s1.live = s.live ∧
+    deliveredTo s1 id = deliveredTo s id ++ (if l.1 == id && l.2 == ty then [r] else []) ∧
+    savedOf s1 id = if l.1 == id && l.2 == ty then s.log.length else savedOf s id := by
+  simp only [pstep, hd, Bool.false_or, deliverAndSave_eq, h0, if_false, failsAt_none, crashAt_none, cd, sv]
+  by_cases hty : l.2 = ty
+  · have : (l.2 != ty) = false := by simp [hty]
+    simp only [this, Bool.false_eq_true, if_false, deliveredTo_save, deliveredTo_bump, deliveredTo_deliver, savedOf_save,
+      savedOf_bump, savedOf_deliver, hl]
+    have h2 : (l.2 == ty) = true := by simp [hty]
+    simp only [h2, Bool.and_true]
+    refine ⟨?_, ?_, ?_, ?_, ?_, ?_⟩ <;> first | rfl | exact hd | exact hl | trivial
+  · have : (l.2 != ty) = true := by simp [hty]
+    have h2 : (l.2 == ty) = false := by simp [hty]
+    simp [this, h2]
+    exact hd
+
+theorem pfold0 (ty r id : Nat) : ∀ (L : List (Nat × Nat)) (s : RS), s.dead = false → s.last = s.log.length →
+    s.last ≠ 0 →
+    (L.foldl (pstep {} ty r) s).dead = false ∧ (L.foldl (pstep {} ty r) s).log = s.log ∧
+    (L.foldl (pstep {} ty r) s).last = s.last ∧ (L.foldl (pstep {} ty r) s).live = s.live ∧
+    deliveredTo (L.foldl (pstep {} ty r) s) id
+      = deliveredTo s id ++ (L.filter (fun l => l.1 == id && l.2 == ty)).map (fun _ => r) ∧
+    savedOf (L.foldl (pstep {} ty r) s) id
+      = if L.any (fun l => l.1 == id && l.2 == ty) then s.log.length else savedOf s id := by
+  intro L
+  induction L with
+  | nil => intro s hd _ _; simp [hd]
+  | cons l L ih =>
+    intro s hd hl h0
+    obtain ⟨a1, a2, a3, a4, a5, a6⟩ := pstep0 ty r id s l hd hl h0
+    obtain ⟨b1, b2, b3, b4, b5, b6⟩ := ih (pstep {} ty r s l) a1 (by rw [a3, a2]; exact hl) (by rw [a3]; exact h0)
+    simp only [List.foldl_cons]
+    refine ⟨b1, b2.trans a2, b3.trans a3, b4.trans a4, ?_, ?_⟩
+    · rw [b5, a5, List.filter_cons]
+      cases (l.1 == id && l.2 == ty) <;> simp
+    · rw [b6, a6, a2, List.any_cons]
+      cases (l.1 == id && l.2 == ty) <;> simp
+
+theorem any_eq_filter {α : Type} (p : α → Bool) (L : List α) : L.any p = !(L.filter p).isEmpty := by
+  induction L with
+  | nil => rfl
+  | cons l L ih =>
+    simp only [List.any_cons, List.filter_cons]
+    cases h : p l <;> simp [ih]
+
+theorem filter_id_ty (L : List (Nat × Nat)) (id ty : Nat) :
+    L.filter (fun l => l.1 == id && l.2 == ty) = (L.filter (fun l => l.1 == id)).filter (fun l => l.2 == ty) := by
+  rw [List.filter_filter]
+  congr 1
+  funext a
+  exact Bool.and_comm _ _
+
+theorem nest_none (p : Plan) (first : Bool) (s : RS) : nest p none first s = s := by
+  unfold nest; cases first <;> rfl
+
+theorem rstepFF (id' ty id : Nat) (acc : RS × Bool) (e : Nat × Nat × Nat) (hd : acc.1.dead = false) :
+    let a1 := rstep {} id' ty none acc e
+    a1.1.dead = false ∧ a1.1.log = acc.1.log ∧ a1.1.last = acc.1.last ∧ a1.1.live = acc.1.live ∧
+    deliveredTo a1.1 id = deliveredTo acc.1 id ++ (if e.2.1 == ty && id' == id then [e.2.2] else []) ∧
+    savedOf a1.1 id = if e.2.1 == ty && id' == id then e.1 else savedOf acc.1 id := by
+  simp only [rstep, hd, Bool.false_or, nest_none, fin, failsAt_none, crashAt_none, cd, sv]
+  by_cases hty : e.2.1 = ty
+  · have h1 : (e.2.1 != ty) = false := by simp [hty]
+    have h2 : (e.2.1 == ty) = true := by simp [hty]
+    have h3 : (deliver acc.1 id' e.2.2).dead = false := hd
+    simp only [h1, h2, h3, Bool.false_eq_true, if_false, Bool.true_and, deliveredTo_save, deliveredTo_bump,
+      deliveredTo_deliver, savedOf_save, savedOf_bump, savedOf_deliver]
+    refine ⟨?_, ?_, ?_, ?_, ?_, ?_⟩ <;> first | rfl | exact hd | trivial
+  · have h1 : (e.2.1 != ty) = true := by simp [hty]
+    have h2 : (e.2.1 == ty) = false := by simp [hty]
+    simp [h1, h2]
+    exact hd
+
+/-- replay of another subscription: nothing changes for `id` -/
+theorem rfoldFF_frame (id' ty id : Nat) (hne : (id' == id) = false) :
+    ∀ (evs : List (Nat × Nat × Nat)) (acc : RS × Bool), acc.1.dead = false →
+    (evs.foldl (rstep {} id' ty none) acc).1.dead = false ∧
+    (evs.foldl (rstep {} id' ty none) acc).1.log = acc.1.log ∧
+    (evs.foldl (rstep {} id' ty none) acc).1.last = acc.1.last ∧
+    (evs.foldl (rstep {} id' ty none) acc).1.live = acc.1.live ∧
+    deliveredTo (evs.foldl (rstep {} id' ty none) acc).1 id = deliveredTo acc.1 id ∧
+    savedOf (evs.foldl (rstep {} id' ty none) acc).1 id = savedOf acc.1 id := by
+  intro evs
+  induction evs with
+  | nil => intro acc hd; simp [hd]
+  | cons e evs ih =>
+    intro acc hd
+    obtain ⟨a1, a2, a3, a4, a5, a6⟩ := rstepFF id' ty id acc e hd
+    obtain ⟨b1, b2, b3, b4, b5, b6⟩ := ih _ a1
+    simp only [hne, Bool.and_false, Bool.false_eq_true, if_false, List.append_nil] at a5 a6
+    simp only [List.foldl_cons]
+    exact ⟨b1, b2.trans a2, b3.trans a3, b4.trans a4, b5.trans a5, b6.trans a6⟩
+
+/-- replay of `id` itself -/
+theorem rfoldFF_self (id ty : Nat) :
+    ∀ (l : List (Nat × Nat)) (pre : List (Nat × Nat)) (acc : RS × Bool), acc.1.dead = false →
+    acc.1.log = pre ++ l →
+    deliveredTo acc.1 id = typed pre ty →
+    deliveredTo acc.1 id = typed (acc.1.log.take (savedOf acc.1 id)) ty →
+    (evsFrom pre.length l |>.foldl (rstep {} id ty none) acc).1.dead = false ∧
+    (evsFrom pre.length l |>.foldl (rstep {} id ty none) acc).1.log = acc.1.log ∧
+    (evsFrom pre.length l |>.foldl (rstep {} id ty none) acc).1.last = acc.1.last ∧
+    (evsFrom pre.length l |>.foldl (rstep {} id ty none) acc).1.live = acc.1.live ∧
+    deliveredTo (evsFrom pre.length l |>.foldl (rstep {} id ty none) acc).1 id = typed acc.1.log ty ∧
+    deliveredTo (evsFrom pre.length l |>.foldl (rstep {} id ty none) acc).1 id
+      = typed ((evsFrom pre.length l |>.foldl (rstep {} id ty none) acc).1.log.take
+          (savedOf (evsFrom pre.length l |>.foldl (rstep {} id ty none) acc).1 id)) ty := by
+  intro l
+  induction l with
+  | nil =>
+    intro pre acc hd hlog h1 h2
+    simp only [List.append_nil] at hlog
+    simp only [evsFrom, List.foldl_nil]
+    exact ⟨hd, trivial, trivial, trivial, by rw [hlog]; exact h1, h2⟩
+  | cons e0 l ih =>
+    intro pre acc hd hlog h1 h2
+    obtain ⟨a1, a2, a3, a4, a5, a6⟩ := rstepFF id ty id acc (pre.length + 1, e0.1, e0.2) hd
+    simp only [evsFrom, List.foldl_cons]
+    have hlog' : (rstep {} id ty none acc (pre.length + 1, e0.1, e0.2)).1.log = (pre ++ [e0]) ++ l := by
+      rw [a2, hlog]; simp
+    have hlen : (pre ++ [e0]).length = pre.length + 1 := by simp
+    have := ih (pre ++ [e0]) (rstep {} id ty none acc (pre.length + 1, e0.1, e0.2)) a1 hlog'
+    rw [hlen] at this
+    simp only [BEq.rfl, Bool.and_true] at a5 a6
+    have g1 : deliveredTo (rstep {} id ty none acc (pre.length + 1, e0.1, e0.2)).1 id = typed (pre ++ [e0]) ty := by
+      rw [a5, typed_append, typed_single, h1]
+    have g2 : deliveredTo (rstep {} id ty none acc (pre.length + 1, e0.1, e0.2)).1 id
+        = typed ((rstep {} id ty none acc (pre.length + 1, e0.1, e0.2)).1.log.take
+            (savedOf (rstep {} id ty none acc (pre.length + 1, e0.1, e0.2)).1 id)) ty := by
+      rw [a6]
+      cases hty : e0.1 == ty
+      · simp only [Bool.false_eq_true, if_false]
+        rw [a5, a2]; simp only [hty, Bool.false_eq_true, if_false, List.append_nil]; exact h2
+      · simp only [if_true]
+        rw [hlog', List.take_left' hlen]; exact g1
+    obtain ⟨b1, b2, b3, b4, b5, b6⟩ := this g1 g2
+    exact ⟨b1, b2.trans a2, b3.trans a3, b4.trans a4, by rw [b5, a2], b6⟩
+
+structure E (tyOf : Nat → Nat) (id : Nat) (s : RS) : Prop where
+  dead : s.dead = false
+  w : W s
+  saved : deliveredTo s id = typed (s.log.take (savedOf s id)) (tyOf id)
+  live : liveOf s id = [] ∨ (liveOf s id = [(id, tyOf id)] ∧ deliveredTo s id = typed s.log (tyOf id))
+
+theorem setDead_eq (s : RS) (h : s.dead = false) : { s with dead := false } = s := by
+  cases s; simp_all
+
+theorem publish_ff (s : RS) (ty r : Nat) :
+    publish {} s ty r = (app (bump s) ty r).live.foldl (pstep {} ty r) (app (bump s) ty r) := by
+  rw [publish_eq]; simp [failsAt_none, crashAt_none]
+
+theorem subscribe_ff (s : RS) (id ty : Nat) (pd : Option (Nat × Nat)) :
+    subscribe {} s id ty pd =
+      if ((eventsAfter s.log (savedOf s id)).foldl (rstep {} id ty pd) (bump (bump s), true)).1.dead then
+        ((eventsAfter s.log (savedOf s id)).foldl (rstep {} id ty pd) (bump (bump s), true)).1
+      else addLive ((eventsAfter s.log (savedOf s id)).foldl (rstep {} id ty pd) (bump (bump s), true)).1 id ty := by
+  rw [subscribe_eq]; simp [failsAt_none, crashAt_none]
+
+theorem E_publish {tyOf : Nat → Nat} {id : Nat} {s : RS} (h : E tyOf id s) (ty r : Nat) :
+    E tyOf id (publish {} s ty r) := by
+  have hw := (W_publish h.w {} ty r).1
+  rw [publish_ff] at hw ⊢
+  obtain ⟨a1, a2, a3, a4, a5, a6⟩ := pfold0 ty r id (app (bump s) ty r).live (app (bump s) ty r) h.dead
+    (by simp [app, bump]) (by simp [app])
+  generalize List.foldl (pstep {} ty r) (app (bump s) ty r) (app (bump s) ty r).live = s' at *
+  have hlive : liveOf s' id = liveOf s id := by unfold liveOf; rw [a4]; rfl
+  have hlog : s'.log = s.log ++ [(ty, r)] := a2
+  have hsv := savedOf_le_of_W h.w id
+  have hfl : (app (bump s) ty r).live.filter (fun l => l.1 == id && l.2 == ty)
+      = (liveOf s id).filter (fun l => l.2 == ty) := filter_id_ty _ _ _
+  rw [any_eq_filter, hfl] at a6
+  rw [hfl] at a5
+  simp only [savedOf_app, savedOf_bump, deliveredTo_app, deliveredTo_bump, log_app, log_bump] at a5 a6
+  rcases h.live with hl | ⟨hl, hd⟩
+  · rw [hl] at a5 a6
+    simp only [List.filter_nil, List.map_nil, List.append_nil, List.isEmpty_nil, Bool.not_true,
+      Bool.false_eq_true, if_false] at a5 a6
+    refine ⟨a1, hw, ?_, Or.inl (hlive.trans hl)⟩
+    rw [a5, a6, hlog, List.take_append_of_le_length hsv]; exact h.saved
+  · rw [hl] at a5 a6
+    cases hty : tyOf id == ty
+    · simp only [List.filter_cons, hty, List.filter_nil, List.map_nil, List.append_nil, List.isEmpty_nil,
+        Bool.not_true, Bool.false_eq_true, if_false] at a5 a6
+      have hty' : (ty == tyOf id) = false := by
+        simp only [beq_eq_false_iff_ne, ne_eq] at hty ⊢; exact fun h => hty h.symm
+      refine ⟨a1, hw, ?_, Or.inr ⟨hlive.trans hl, ?_⟩⟩
+      · rw [a5, a6, hlog, List.take_append_of_le_length hsv]; exact h.saved
+      · rw [a5, hlog, typed_append, typed_single, hd]; simp [hty']
+    · simp only [List.filter_cons, hty, if_true, List.filter_nil, List.map_cons, List.map_nil, List.isEmpty_cons,
+        Bool.not_false] at a5 a6
+      have hty' : (ty == tyOf id) = true := by
+        simp only [beq_iff_eq] at hty ⊢; exact hty.symm
+      have : deliveredTo s' id = typed s'.log (tyOf id) := by
+        rw [a5, hlog, typed_append, typed_single, hd]; simp [hty']
+      refine ⟨a1, hw, ?_, Or.inr ⟨hlive.trans hl, this⟩⟩
+      rw [a6, this, hlog, List.take_of_length_le (Nat.le_refl _)]
+
+theorem liveOf_addLive (s : RS) (i t id : Nat) :
+    liveOf (addLive s i t) id = liveOf s id ++ (if i == id then [(i, t)] else []) := by
+  simp only [liveOf, addLive, List.filter_append, List.filter_cons, List.filter_nil]
+
+theorem E_subscribe_other {tyOf : Nat → Nat} {id : Nat} {s : RS} (h : E tyOf id s) (id' ty : Nat)
+    (hne : (id' == id) = false) : E tyOf id (subscribe {} s id' ty none) := by
+  have hw := W_subscribe h.w {} id' ty none
+  rw [subscribe_ff] at hw ⊢
+  obtain ⟨a1, a2, a3, a4, a5, a6⟩ := rfoldFF_frame id' ty id hne (eventsAfter s.log (savedOf s id'))
+    (bump (bump s), true) h.dead
+  generalize (List.foldl (rstep {} id' ty none) (bump (bump s), true) (eventsAfter s.log (savedOf s id'))).1 = s' at *
+  simp only [a1, Bool.false_eq_true, if_false] at hw ⊢
+  simp only [log_bump, deliveredTo_bump, savedOf_bump] at a2 a5 a6
+  have hlive : liveOf (addLive s' id' ty) id = liveOf s id := by
+    rw [liveOf_addLive, hne]; simp only [Bool.false_eq_true, if_false, List.append_nil]
+    unfold liveOf; rw [a4]; rfl
+  refine ⟨a1, hw, ?_, ?_⟩
+  · show deliveredTo s' id = typed (s'.log.take (savedOf s' id)) (tyOf id)
+    rw [a5, a6, a2]; exact h.saved
+  · rw [hlive]
+    show _ ∨ (_ ∧ deliveredTo s' id = typed s'.log (tyOf id))
+    rw [a5, a2]; exact h.live
+
+theorem E_subscribe_self {tyOf : Nat → Nat} {id : Nat} {s : RS} (h : E tyOf id s)
+    (hnl : isLive s id = false) : E tyOf id (subscribe {} s id (tyOf id) none) := by
+  have hw := W_subscribe h.w {} id (tyOf id) none
+  rw [subscribe_ff] at hw ⊢
+  rw [eventsAfter_eq] at hw ⊢
+  have hsv := savedOf_le_of_W h.w id
+  have hlen : (s.log.take (savedOf s id)).length = savedOf s id := by
+    rw [List.length_take]; omega
+  have := rfoldFF_self id (tyOf id) (s.log.drop (savedOf s id)) (s.log.take (savedOf s id)) (bump (bump s), true)
+    h.dead (List.take_append_drop _ _).symm h.saved h.saved
+  rw [hlen] at this
+  obtain ⟨a1, a2, a3, a4, a5, a6⟩ := this
+  generalize (List.foldl (rstep {} id (tyOf id) none) (bump (bump s), true)
+    (evsFrom (savedOf s id) (s.log.drop (savedOf s id)))).1 = s' at *
+  simp only [a1, Bool.false_eq_true, if_false] at hw ⊢
+  simp only [log_bump] at a2 a5
+  have hl0 : liveOf s id = [] := by
+    rw [isLive_eq] at hnl
+    simpa using hnl
+  have hlive : liveOf (addLive s' id (tyOf id)) id = [(id, tyOf id)] := by
+    rw [liveOf_addLive]; simp only [BEq.rfl, if_true]
+    have : liveOf s' id = liveOf s id := by unfold liveOf; rw [a4]; rfl
+    rw [this, hl0]; rfl
+  refine ⟨a1, hw, a6, Or.inr ⟨hlive, ?_⟩⟩
+  show deliveredTo s' id = typed s'.log (tyOf id)
+  rw [a5, a2]
+
+theorem E_restart {tyOf : Nat → Nat} {id : Nat} {s : RS} (h : E tyOf id s) :
+    E tyOf id { s with last := 0, live := [] } :=
+  ⟨h.dead, ⟨h.w.1, Nat.zero_le _⟩, h.saved, Or.inl rfl⟩
+
+theorem E_foldl (tyOf : Nat → Nat) (id : Nat) : ∀ (ops : List ROp) (s : RS), E tyOf id s →
+    wellFormedFrom {} tyOf s ops = true → E tyOf id (ops.foldl (stepOp {}) s) := by
+  intro ops
+  induction ops with
+  | nil => intro s h _; exact h
+  | cons op ops ih =>
+    intro s h hwf
+    simp only [wellFormedFrom, Bool.and_eq_true] at hwf
+    refine ih _ ?_ hwf.2
+    cases op with
+    | publish ty r =>
+      have := E_publish h ty r
+      simp only [stepOp]; rw [setDead_eq _ this.dead]; exact this
+    | subscribe id' ty pd =>
+      have h1 := hwf.1
+      simp only [Bool.and_eq_true, beq_iff_eq, Bool.not_eq_true', Option.isNone_iff_eq_none] at h1
+      obtain ⟨⟨hty, hnl⟩, hpd⟩ := h1
+      subst hpd
+      have : E tyOf id (subscribe {} s id' ty none) := by
+        cases hid : id' == id
+        · exact E_subscribe_other h id' ty hid
+        · simp only [beq_iff_eq] at hid
+          subst hid; subst hty
+          exact E_subscribe_self h hnl
+      simp only [stepOp]; rw [setDead_eq _ this.dead]; exact this
+    | restart => exact E_restart h
+
+theorem E_init (tyOf : Nat → Nat) (id : Nat) : E tyOf id {} :=
+  ⟨rfl, ⟨by simp, by simp⟩, rfl, Or.inl rfl⟩
+
+theorem typed_take_prefix (log : List (Nat × Nat)) (k T : Nat) : typed (log.take k) T <+: typed log T := by
+  refine ⟨typed (log.drop k) T, ?_⟩
+  rw [← typed_append, List.take_append_drop]
+
+/-! ### runs under an arbitrary plan: nothing is lost -/
+
+theorem fin_spec (p : Plan) (i off id : Nat) (s : RS) (hd : s.dead = false) :
+    (fin p i off s).log = s.log ∧
+    ((fin p i off s).last = s.last ∨ (fin p i off s).last = 0) ∧
+    (((fin p i off s).live = s.live ∧ (fin p i off s).dead = false) ∨
+      ((fin p i off s).live = [] ∧ (fin p i off s).dead = true)) ∧
+    deliveredTo (fin p i off s) id = deliveredTo s id ∧
+    (savedOf (fin p i off s) id = savedOf s id ∨ ((i == id) = true ∧ savedOf (fin p i off s) id = off)) := by
+  simp only [fin, hd, Bool.false_eq_true, if_false]
+  cases crashAt p s <;> cases failsAt p s <;>
+    simp only [cd, sv, Bool.false_eq_true, if_false, if_true, log_save, log_bump, log_die, deliveredTo_save,
+      deliveredTo_bump, deliveredTo_die, savedOf_die, savedOf_save, savedOf_bump] <;>
+    refine ⟨trivial, ?_, ?_, trivial, ?_⟩ <;>
+    first
+      | exact Or.inl trivial
+      | exact Or.inl rfl
+      | exact Or.inr rfl
+      | exact Or.inl ⟨rfl, hd⟩
+      | exact Or.inr ⟨rfl, rfl⟩
+      | (split
+         · rename_i h; exact Or.inr ⟨h, rfl⟩
+         · exact Or.inl rfl)
+
+theorem dAS_spec (p : Plan) (i r off id : Nat) (s : RS) (hd : s.dead = false) :
+    (deliverAndSave p s i r off).log = s.log ∧
+    ((deliverAndSave p s i r off).last = s.last ∨ (deliverAndSave p s i r off).last = 0) ∧
+    (((deliverAndSave p s i r off).live = s.live ∧ (deliverAndSave p s i r off).dead = false) ∨
+      ((deliverAndSave p s i r off).live = [] ∧ (deliverAndSave p s i r off).dead = true)) ∧
+    deliveredTo (deliverAndSave p s i r off) id = deliveredTo s id ++ (if i == id then [r] else []) ∧
+    (savedOf (deliverAndSave p s i r off) id = savedOf s id ∨
+      ((i == id) = true ∧ off ≠ 0 ∧ savedOf (deliverAndSave p s i r off) id = off)) := by
+  by_cases h0 : off = 0
+  · have : deliverAndSave p s i r off = deliver s i r := by rw [deliverAndSave_eq]; simp [h0]
+    rw [this]
+    exact ⟨rfl, Or.inl rfl, Or.inl ⟨rfl, hd⟩, deliveredTo_deliver .., Or.inl rfl⟩
+  · have : deliverAndSave p s i r off = fin p i off (deliver s i r) := by
+      rw [deliverAndSave_eq]
+      have hd' : (deliver s i r).dead = false := hd
+      simp only [h0, if_false, fin, hd', Bool.false_eq_true]
+      rfl
+    rw [this]
+    obtain ⟨a1, a2, a3, a4, a5⟩ := fin_spec p i off id (deliver s i r) hd
+    refine ⟨a1, a2, a3, by rw [a4, deliveredTo_deliver], ?_⟩
+    rcases a5 with a5 | ⟨a5, a6⟩
+    · exact Or.inl a5
+    · exact Or.inr ⟨a5, h0, a6⟩
+
+def pend (id ty r : Nat) (L : List (Nat × Nat)) : List Nat :=
+  if L.any (fun l => l.1 == id && l.2 == ty) then [r] else []
+
+structure F (T id ty r : Nat) (s : RS) (L : List (Nat × Nat)) : Prop where
+  w : W s
+  last : s.last = 0 ∨ s.last = s.log.length
+  saved : List.Sublist (typed (s.log.take (savedOf s id)) T) (deliveredTo s id)
+  live : s.dead = false → liveOf s id ≠ [] →
+    List.Sublist (typed s.log T) (deliveredTo s id ++ pend id ty r L)
+  tys : ∀ l ∈ s.live, l.1 = id → l.2 = T
+  sub : s.dead = false → ∀ l ∈ L, l ∈ s.live
+  deadlive : s.dead = true → s.live = []
+
+theorem F_step {T id ty r : Nat} {s s1 : RS} {L L' : List (Nat × Nat)} (h : F T id ty r s L)
+    (hd : s.dead = false) (hw : W s1) (hlog : s1.log = s.log)
+    (hlast : s1.last = s.last ∨ s1.last = 0)
+    (hlv : (s1.live = s.live ∧ s1.dead = false) ∨ (s1.live = [] ∧ s1.dead = true))
+    (hsub : ∀ l ∈ L', l ∈ L)
+    (hsaved : List.Sublist (typed (s.log.take (savedOf s1 id)) T) (deliveredTo s1 id))
+    (hlive : liveOf s id ≠ [] → List.Sublist (typed s.log T) (deliveredTo s1 id ++ pend id ty r L')) :
+    F T id ty r s1 L' := by
+  refine ⟨hw, ?_, by rw [hlog]; exact hsaved, ?_, ?_, ?_, ?_⟩
+  · rcases hlast with hl | hl
+    · rw [hl, hlog]; exact h.last
+    · exact Or.inl hl
+  · intro hd1 hl1
+    rcases hlv with ⟨hl, _⟩ | ⟨_, hdd⟩
+    · rw [hlog]
+      apply hlive
+      intro h0; apply hl1; unfold liveOf at h0 ⊢; rw [hl]; exact h0
+    · rw [hdd] at hd1; cases hd1
+  · rcases hlv with ⟨hl, _⟩ | ⟨hl, _⟩
+    · rw [hl]; exact h.tys
+    · rw [hl]; intro l hl; cases hl
+  · intro hd1 l hl
+    rcases hlv with ⟨hlv, _⟩ | ⟨_, hdd⟩
+    · rw [hlv]; exact h.sub hd l (hsub l hl)
+    · rw [hdd] at hd1; cases hd1
+  · intro hd1
+    rcases hlv with ⟨_, hdd⟩ | ⟨hl, _⟩
+    · rw [hdd] at hd1; cases hd1
+    · exact hl
+
+theorem pend_cons (id ty r : Nat) (l : Nat × Nat) (L : List (Nat × Nat)) :
+    pend id ty r (l :: L) = if l.1 == id && l.2 == ty then [r] else pend id ty r L := by
+  by_cases h : (l.1 == id && l.2 == ty) = true <;> simp [pend, h]
+
+theorem F_pstep {T id ty r : Nat} {s : RS} {l : Nat × Nat} {L : List (Nat × Nat)} (p : Plan)
+    (h : F T id ty r s (l :: L)) : F T id ty r (pstep p ty r s l) L := by
+  unfold pstep
+  by_cases hskip : (s.dead || l.2 != ty) = true
+  · rw [if_pos hskip]
+    refine ⟨h.w, h.last, h.saved, ?_, h.tys, fun hd l' hl' => h.sub hd l' (List.mem_cons_of_mem _ hl'), h.deadlive⟩
+    intro hd hl
+    have := h.live hd hl
+    rw [pend_cons] at this
+    simp only [hd, Bool.false_or] at hskip
+    have h2 : (l.2 == ty) = false := by simpa using hskip
+    simpa only [h2, Bool.and_false, Bool.false_eq_true, if_false] using this
+  · rw [if_neg hskip]
+    simp only [Bool.or_eq_true, not_or, Bool.not_eq_true, bne_eq_false_iff_eq] at hskip
+    obtain ⟨hd, hty⟩ := hskip
+    obtain ⟨a1, a2, a3, a4, a5⟩ := dAS_spec p l.1 r s.last id s hd
+    have hw := W_deliverAndSave h.w p l.1 r s.last h.w.2
+    have hpend := pend_cons id ty r l L
+    cases hid : l.1 == id
+    · simp only [hid, Bool.false_eq_true, if_false, List.append_nil, false_and, or_false, Bool.false_and] at a4 a5 hpend
+      refine F_step h hd hw a1 a2 a3 (fun l' hl' => List.mem_cons_of_mem _ hl') ?_ ?_
+      · rw [a4, a5]; exact h.saved
+      · intro hl; rw [a4, ← hpend]; exact h.live hd hl
+    · have hmem : l ∈ s.live := h.sub hd l (List.mem_cons_self ..)
+      have hl : liveOf s id ≠ [] := by
+        intro h0
+        have : l ∈ liveOf s id := by unfold liveOf; exact List.mem_filter.mpr ⟨hmem, hid⟩
+        rw [h0] at this; cases this
+      have hty2 : (l.2 == ty) = true := by simp [hty]
+      simp only [hid, hty2, Bool.and_true, if_true] at a4 a5 hpend
+      have K : List.Sublist (typed s.log T) (deliveredTo s id ++ [r]) := by
+        have := h.live hd hl; rw [hpend] at this; exact this
+      refine F_step h hd hw a1 a2 a3 (fun l' hl' => List.mem_cons_of_mem _ hl') ?_ ?_
+      · rw [a4]
+        rcases a5 with a5 | ⟨_, a5, a6⟩
+        · rw [a5]; exact h.saved.trans (List.sublist_append_left _ _)
+        · rw [a6]
+          rcases h.last with h0 | h1
+          · exact absurd h0 a5
+          · rw [h1, List.take_of_length_le (Nat.le_refl _)]; exact K
+      · intro _; rw [a4]; exact K.trans (List.sublist_append_left _ _)
+
+theorem F_pfold {T id ty r : Nat} (p : Plan) : ∀ (L : List (Nat × Nat)) (s : RS), F T id ty r s L →
+    F T id ty r (L.foldl (pstep p ty r) s) [] := by
+  intro L
+  induction L with
+  | nil => intro s h; exact h
+  | cons l L ih => intro s h; exact ih _ (F_pstep p h)
+
+theorem finD_spec (p : Plan) (i r off id : Nat) (s : RS) (hd : s.dead = false) :
+    (fin p i off (deliver s i r)).log = s.log ∧
+    ((fin p i off (deliver s i r)).last = s.last ∨ (fin p i off (deliver s i r)).last = 0) ∧
+    (((fin p i off (deliver s i r)).live = s.live ∧ (fin p i off (deliver s i r)).dead = false) ∨
+      ((fin p i off (deliver s i r)).live = [] ∧ (fin p i off (deliver s i r)).dead = true)) ∧
+    deliveredTo (fin p i off (deliver s i r)) id = deliveredTo s id ++ (if i == id then [r] else []) ∧
+    (savedOf (fin p i off (deliver s i r)) id = savedOf s id ∨
+      ((i == id) = true ∧ savedOf (fin p i off (deliver s i r)) id = off)) := by
+  obtain ⟨a1, a2, a3, a4, a5⟩ := fin_spec p i off id (deliver s i r) hd
+  exact ⟨a1, a2, a3, by rw [a4, deliveredTo_deliver], a5⟩
+
+def A (T id : Nat) (s : RS) : Prop := s.dead = false ∧ F T id 0 0 s []
+
+def undead (s : RS) : RS := { s with dead := false }
+
+theorem F_nil_irrel {T id ty r ty' r' : Nat} {s : RS} (h : F T id ty r s []) : F T id ty' r' s [] :=
+  ⟨h.w, h.last, h.saved, h.live, h.tys, h.sub, h.deadlive⟩
+
+theorem F_live' {T id ty r : Nat} {s : RS} (h : F T id ty r s []) (hd : s.dead = false) (hl : liveOf s id ≠ []) :
+    List.Sublist (typed s.log T) (deliveredTo s id) := by
+  have := h.live hd hl
+  simpa [pend] using this
+
+theorem A_undead {T id ty r : Nat} {s : RS} (h : F T id ty r s []) : A T id (undead s) := by
+  refine ⟨rfl, h.w, h.last, h.saved, ?_, h.tys, ?_, ?_⟩
+  · intro _ hl
+    cases hd : s.dead
+    · exact h.live hd hl
+    · have := h.deadlive hd
+      exfalso; apply hl; unfold liveOf undead; simp [this]
+  · intro _ l hl; cases hl
+  · intro hd; cases hd
+
+theorem F_die {T id ty r : Nat} {s : RS} {L : List (Nat × Nat)} (h : F T id ty r s L) :
+    F T id ty r (die s) [] := by
+  refine ⟨W_die h.w, Or.inl rfl, h.saved, ?_, ?_, ?_, ?_⟩
+  · intro hd; cases hd
+  · intro l hl; cases hl
+  · intro _ l hl; cases hl
+  · intro _; rfl
+
+theorem F_bump {T id ty r : Nat} {s : RS} {L : List (Nat × Nat)} (h : F T id ty r s L) :
+    F T id ty r (bump s) L := ⟨h.w, h.last, h.saved, h.live, h.tys, h.sub, h.deadlive⟩
+
+theorem F_err {T id ty r : Nat} {s : RS} {L : List (Nat × Nat)} (h : F T id ty r s L) (i : Nat) :
+    F T id ty r (err s i) L := ⟨h.w, h.last, h.saved, h.live, h.tys, h.sub, h.deadlive⟩
+
+theorem exists_live {s : RS} {id : Nat} (hl : liveOf s id ≠ []) : ∃ l ∈ s.live, (l.1 == id) = true := by
+  obtain ⟨l, hl⟩ := List.exists_mem_of_ne_nil _ hl
+  unfold liveOf at hl
+  rw [List.mem_filter] at hl
+  exact ⟨l, hl.1, hl.2⟩
+
+theorem A_publish {T id : Nat} {s : RS} (h : A T id s) (p : Plan) (ty r : Nat) :
+    F T id ty r (publish p s ty r) [] := by
+  obtain ⟨hd, h⟩ := h
+  rw [publish_eq]
+  have hs2 : F T id ty r (if failsAt p s then bump s else app (bump s) ty r)
+      (if failsAt p s then bump s else app (bump s) ty r).live := by
+    split
+    · refine ⟨h.w, h.last, h.saved, ?_, h.tys, fun _ l hl => hl, h.deadlive⟩
+      intro _ hl
+      exact (F_live' h hd hl).trans (List.sublist_append_left _ _)
+    · refine ⟨W_app (W_bump h.w) ty r, Or.inr (by simp [app]), ?_, ?_, h.tys, fun _ l hl => hl, h.deadlive⟩
+      · show List.Sublist (typed ((s.log ++ [(ty, r)]).take (savedOf s id)) T) (deliveredTo s id)
+        rw [List.take_append_of_le_length (savedOf_le_of_W h.w id)]; exact h.saved
+      · intro _ hl
+        show List.Sublist (typed (s.log ++ [(ty, r)]) T) (deliveredTo s id ++ pend id ty r s.live)
+        have hl' : liveOf s id ≠ [] := hl
+        rw [typed_append, typed_single]
+        cases hty : ty == T
+        · simp only [Bool.false_eq_true, if_false, List.append_nil]
+          exact (F_live' h hd hl').trans (List.sublist_append_left _ _)
+        · obtain ⟨l, hm, hi⟩ := exists_live hl'
+          have ht := h.tys l hm (by simpa using hi)
+          have : pend id ty r s.live = [r] := by
+            unfold pend
+            have : s.live.any (fun l => l.1 == id && l.2 == ty) = true := by
+              rw [List.any_eq_true]
+              refine ⟨l, hm, ?_⟩
+              simp only [beq_iff_eq] at hty
+              simp [hi, ht, hty]
+            rw [this]; rfl
+          rw [this]
+          simp only [if_true]
+          exact (F_live' h hd hl').append (List.Sublist.refl _)
+  generalize (if failsAt p s then bump s else app (bump s) ty r) = s2 at hs2
+  simp only []
+  split
+  · exact F_die hs2
+  · exact F_pfold p _ _ hs2
+
+theorem F_rstep_frame {T id : Nat} {s : RS} (h : F T id 0 0 s []) (p : Plan) (id' ty : Nat) (b : Bool)
+    (e : Nat × Nat × Nat) (hne : (id' == id) = false) (he : e.1 ≤ s.log.length) :
+    F T id 0 0 (rstep p id' ty none (s, b) e).1 [] ∧ (rstep p id' ty none (s, b) e).1.log = s.log := by
+  unfold rstep
+  by_cases hskip : (s.dead || e.2.1 != ty) = true
+  · rw [if_pos hskip]; exact ⟨h, rfl⟩
+  · rw [if_neg hskip]; simp only [nest_none]
+    simp only [Bool.or_eq_true, not_or, Bool.not_eq_true] at hskip
+    obtain ⟨hd, _⟩ := hskip
+    obtain ⟨a1, a2, a3, a4, a5⟩ := finD_spec p id' e.2.2 e.1 id s hd
+    have hw := (W_fin (W_deliver h.w id' e.2.2) p id' e.1 he).1
+    simp only [hne, Bool.false_eq_true, if_false, List.append_nil, false_and, or_false] at a4 a5
+    refine ⟨F_step h hd hw a1 a2 a3 (fun l hl => hl) ?_ ?_, a1⟩
+    · rw [a4, a5]; exact h.saved
+    · intro hl; rw [a4]; exact h.live hd hl
+
+theorem F_rfold_frame {T id : Nat} (p : Plan) (id' ty : Nat) (hne : (id' == id) = false) :
+    ∀ (evs : List (Nat × Nat × Nat)) (acc : RS × Bool), F T id 0 0 acc.1 [] →
+      (∀ e ∈ evs, e.1 ≤ acc.1.log.length) →
+      F T id 0 0 (evs.foldl (rstep p id' ty none) acc).1 [] := by
+  intro evs
+  induction evs with
+  | nil => intro acc h _; exact h
+  | cons e evs ih =>
+    intro acc h he
+    have h1 := F_rstep_frame h p id' ty acc.2 e hne (he e (List.mem_cons_self ..))
+    simp only [List.foldl_cons]
+    exact ih _ h1.1 (fun e' he' => by rw [h1.2]; exact he e' (List.mem_cons_of_mem _ he'))
+
+structure H (T id : Nat) (s : RS) (pre : List (Nat × Nat)) : Prop where
+  w : W s
+  last : s.last = 0 ∨ s.last = s.log.length
+  saved : List.Sublist (typed (s.log.take (savedOf s id)) T) (deliveredTo s id)
+  cov : s.dead = false → List.Sublist (typed pre T) (deliveredTo s id)
+  nolive : liveOf s id = []
+  deadlive : s.dead = true → s.live = []
+
+theorem H_rstep {T id : Nat} {s : RS} {pre l : List (Nat × Nat)} {e0 : Nat × Nat} (h : H T id s pre)
+    (hlog : s.log = pre ++ e0 :: l) (p : Plan) (b : Bool) :
+    H T id (rstep p id T none (s, b) (pre.length + 1, e0.1, e0.2)).1 (pre ++ [e0]) ∧
+    (rstep p id T none (s, b) (pre.length + 1, e0.1, e0.2)).1.log = s.log := by
+  unfold rstep
+  by_cases hskip : (s.dead || e0.1 != T) = true
+  · rw [if_pos hskip]
+    refine ⟨⟨h.w, h.last, h.saved, ?_, h.nolive, h.deadlive⟩, rfl⟩
+    intro hd
+    have hd : s.dead = false := hd
+    simp only [hd, Bool.false_or, bne_iff_ne, ne_eq] at hskip
+    have : (e0.1 == T) = false := by simpa using hskip
+    rw [typed_append, typed_single, this]
+    simpa using h.cov hd
+  · rw [if_neg hskip]; simp only [nest_none]
+    simp only [Bool.or_eq_true, not_or, Bool.not_eq_true, bne_eq_false_iff_eq] at hskip
+    obtain ⟨hd, hty⟩ := hskip
+    obtain ⟨a1, a2, a3, a4, a5⟩ := finD_spec p id e0.2 (pre.length + 1) id s hd
+    have hlen : pre.length + 1 ≤ s.log.length := by rw [hlog]; simp
+    have hw := (W_fin (W_deliver h.w id e0.2) p id (pre.length + 1) hlen).1
+    simp only [BEq.rfl, if_true, true_and] at a4 a5
+    have K : List.Sublist (typed (pre ++ [e0]) T) (deliveredTo s id ++ [e0.2]) := by
+      rw [typed_append, typed_single]
+      have : (e0.1 == T) = true := by simp [hty]
+      rw [this]
+      exact (h.cov hd).append (List.Sublist.refl _)
+    refine ⟨⟨hw, ?_, ?_, ?_, ?_, ?_⟩, a1⟩
+    · rcases a2 with hl | hl
+      · rw [hl, a1]; exact h.last
+      · exact Or.inl hl
+    · rw [a4, a1]
+      rcases a5 with a5 | a5
+      · rw [a5]; exact h.saved.trans (List.sublist_append_left _ _)
+      · rw [a5, hlog]
+        have : pre ++ e0 :: l = (pre ++ [e0]) ++ l := by simp
+        rw [this, List.take_left' (by simp)]
+        exact K
+    · intro _; rw [a4]; exact K
+    · rcases a3 with ⟨hl, _⟩ | ⟨hl, _⟩
+      · unfold liveOf; rw [hl]; exact h.nolive
+      · unfold liveOf; rw [hl]; rfl
+    · intro hd1
+      rcases a3 with ⟨_, hdd⟩ | ⟨hl, _⟩
+      · rw [hdd] at hd1; cases hd1
+      · exact hl
+
+theorem H_rfold {T id : Nat} (p : Plan) : ∀ (l pre : List (Nat × Nat)) (acc : RS × Bool), H T id acc.1 pre →
+    acc.1.log = pre ++ l →
+    H T id ((evsFrom pre.length l).foldl (rstep p id T none) acc).1 (pre ++ l) ∧
+    ((evsFrom pre.length l).foldl (rstep p id T none) acc).1.log = acc.1.log := by
+  intro l
+  induction l with
+  | nil => intro pre acc h _; simpa [evsFrom] using h
+  | cons e0 l ih =>
+    intro pre acc h hlog
+    have h1 := H_rstep h hlog p acc.2
+    simp only [evsFrom, List.foldl_cons]
+    have := ih (pre ++ [e0]) _ h1.1 (by rw [h1.2, hlog]; simp)
+    refine ⟨by simpa using this.1, ?_⟩
+    have h2 := this.2
+    simp only [List.length_append, List.length_cons, List.length_nil] at h2
+    exact h2.trans h1.2
+
+theorem F_of_H {T id ty r : Nat} {s : RS} {pre : List (Nat × Nat)} (h : H T id s pre) : F T id ty r s [] := by
+  refine ⟨h.w, h.last, h.saved, ?_, ?_, ?_, h.deadlive⟩
+  · intro _ hl; exact absurd h.nolive hl
+  · intro l hl hi
+    have : l ∈ liveOf s id := by unfold liveOf; exact List.mem_filter.mpr ⟨hl, by simp [hi]⟩
+    rw [h.nolive] at this; cases this
+  · intro _ l hl; cases hl
+
+theorem A_subscribe_self {T id : Nat} {s : RS} (h : A T id s) (hnl : liveOf s id = []) (p : Plan) :
+    F T id 0 0 (subscribe p s id T none) [] := by
+  obtain ⟨hd, h⟩ := h
+  rw [subscribe_eq]
+  split
+  · exact F_die (F_bump h)
+  split
+  · exact F_err (F_bump h) id
+  split
+  · exact F_die (F_bump (F_bump h))
+  split
+  · exact F_err (F_bump (F_bump h)) id
+  simp only []
+  rw [eventsAfter_eq]
+  have hsv := savedOf_le_of_W h.w id
+  have hlen : (s.log.take (savedOf s id)).length = savedOf s id := by
+    rw [List.length_take]; omega
+  have h0 : H T id (bump (bump s)) (s.log.take (savedOf s id)) :=
+    ⟨h.w, h.last, h.saved, fun _ => h.saved, hnl, h.deadlive⟩
+  have hH := H_rfold p (s.log.drop (savedOf s id)) (s.log.take (savedOf s id)) (bump (bump s), true) h0
+    (List.take_append_drop _ _).symm
+  rw [hlen, List.take_append_drop] at hH
+  obtain ⟨hH, hlogc⟩ := hH
+  generalize (List.foldl (rstep p id T none) (bump (bump s), true)
+    (evsFrom (savedOf s id) (s.log.drop (savedOf s id)))).1 = s' at *
+  split
+  · exact F_of_H hH
+  · rename_i hd'
+    simp only [Bool.not_eq_true] at hd'
+    refine ⟨hH.w, hH.last, hH.saved, ?_, ?_, ?_, ?_⟩
+    · intro _ _
+      show List.Sublist (typed s'.log T) (deliveredTo s' id ++ pend id 0 0 [])
+      rw [hlogc]
+      exact (hH.cov hd').trans (List.sublist_append_left _ _)
+    · intro l hl hi
+      simp only [addLive, List.mem_append, List.mem_cons, List.not_mem_nil, or_false] at hl
+      rcases hl with hl | rfl
+      · have : l ∈ liveOf s' id := by unfold liveOf; exact List.mem_filter.mpr ⟨hl, by simp [hi]⟩
+        rw [hH.nolive] at this; cases this
+      · rfl
+    · intro _ l hl; cases hl
+    · intro hd1; rw [show (addLive s' id T).dead = s'.dead from rfl, hd'] at hd1; cases hd1
+
+theorem A_subscribe_other {T id : Nat} {s : RS} (h : A T id s) (p : Plan) (id' ty : Nat)
+    (hne : (id' == id) = false) : F T id 0 0 (subscribe p s id' ty none) [] := by
+  obtain ⟨hd, h⟩ := h
+  rw [subscribe_eq]
+  split
+  · exact F_die (F_bump h)
+  split
+  · exact F_err (F_bump h) id'
+  split
+  · exact F_die (F_bump (F_bump h))
+  split
+  · exact F_err (F_bump (F_bump h)) id'
+  simp only []
+  have hF := F_rfold_frame p id' ty hne (eventsAfter s.log (savedOf s id')) (bump (bump s), true)
+    (F_bump (F_bump h)) (fun e he => (mem_eventsAfter he).2)
+  generalize (List.foldl (rstep p id' ty none) (bump (bump s), true) (eventsAfter s.log (savedOf s id'))).1 = s' at *
+  split
+  · exact hF
+  · rename_i hd'
+    simp only [Bool.not_eq_true] at hd'
+    refine ⟨hF.w, hF.last, hF.saved, ?_, ?_, ?_, ?_⟩
+    · intro _ hl
+      have hl' : liveOf s' id ≠ [] := by
+        rw [liveOf_addLive, hne] at hl; simpa using hl
+      exact hF.live hd' hl'
+    · intro l hl hi
+      simp only [addLive, List.mem_append, List.mem_cons, List.not_mem_nil, or_false] at hl
+      rcases hl with hl | rfl
+      · exact hF.tys l hl hi
+      · simp only at hi; subst hi; simp at hne
+    · intro _ l hl; cases hl
+    · intro hd1; rw [show (addLive s' id' ty).dead = s'.dead from rfl, hd'] at hd1; cases hd1
+
+theorem A_restart {T id : Nat} {s : RS} (h : A T id s) : A T id { s with last := 0, live := [] } := by
+  obtain ⟨hd, h⟩ := h
+  refine ⟨hd, ⟨h.w.1, Nat.zero_le _⟩, Or.inl rfl, h.saved, ?_, ?_, ?_, ?_⟩
+  · intro _ hl; exact absurd rfl hl
+  · intro l hl; cases hl
+  · intro _ l hl; cases hl
+  · intro _; rfl
+
+theorem A_foldl (p : Plan) (tyOf : Nat → Nat) (id : Nat) : ∀ (ops : List ROp) (s : RS), A (tyOf id) id s →
+    wellFormedFrom p tyOf s ops = true → A (tyOf id) id (ops.foldl (stepOp p) s) := by
+  intro ops
+  induction ops with
+  | nil => intro s h _; exact h
+  | cons op ops ih =>
+    intro s h hwf
+    simp only [wellFormedFrom, Bool.and_eq_true] at hwf
+    refine ih _ ?_ hwf.2
+    cases op with
+    | publish ty r => exact A_undead (A_publish h p ty r)
+    | subscribe id' ty pd =>
+      have h1 := hwf.1
+      simp only [Bool.and_eq_true, beq_iff_eq, Bool.not_eq_true', Option.isNone_iff_eq_none] at h1
+      obtain ⟨⟨hty, hnl⟩, hpd⟩ := h1
+      subst hpd
+      cases hid : id' == id
+      · exact A_undead (A_subscribe_other h p id' ty hid)
+      · simp only [beq_iff_eq] at hid
+        subst hid; subst hty
+        have hl0 : liveOf s id' = [] := by
+          rw [isLive_eq] at hnl
+          simpa using hnl
+        exact A_undead (A_subscribe_self h hl0 p)
+    | restart => exact A_restart h
+
+theorem A_init (T id : Nat) : A T id {} := by
+  refine ⟨rfl, ⟨by simp, by simp⟩, Or.inl rfl, List.Sublist.refl _, ?_, ?_, ?_, ?_⟩
+  · intro _ hl; exact absurd rfl hl
+  · intro l hl; cases hl
+  · intro _ l hl; cases hl
+  · intro _; rfl
+
+/-! ### independence of subscription ids (fault-free) -/
+
+theorem rfoldFF_fun (id ty : Nat) :
+    ∀ (evs : List (Nat × Nat × Nat)) (acc : RS × Bool), acc.1.dead = false →
+    (evs.foldl (rstep {} id ty none) acc).1.dead = false ∧
+    (evs.foldl (rstep {} id ty none) acc).1.log = acc.1.log ∧
+    (evs.foldl (rstep {} id ty none) acc).1.last = acc.1.last ∧
+    (evs.foldl (rstep {} id ty none) acc).1.live = acc.1.live ∧
+    deliveredTo (evs.foldl (rstep {} id ty none) acc).1 id
+      = deliveredTo acc.1 id ++ (evs.filter (fun e => e.2.1 == ty)).map (fun e => e.2.2) ∧
+    savedOf (evs.foldl (rstep {} id ty none) acc).1 id
+      = evs.foldl (fun sv e => if e.2.1 == ty then e.1 else sv) (savedOf acc.1 id) := by
+  intro evs
+  induction evs with
+  | nil => intro acc hd; simp [hd]
+  | cons e evs ih =>
+    intro acc hd
+    obtain ⟨a1, a2, a3, a4, a5, a6⟩ := rstepFF id ty id acc e hd
+    obtain ⟨b1, b2, b3, b4, b5, b6⟩ := ih _ a1
+    simp only [BEq.rfl, Bool.and_true] at a5 a6
+    simp only [List.foldl_cons]
+    refine ⟨b1, b2.trans a2, b3.trans a3, b4.trans a4, ?_, ?_⟩
+    · rw [b5, a5, List.filter_cons]
+      cases e.2.1 == ty <;> simp
+    · rw [b6, a6]
+
+structure R (id : Nat) (s s' : RS) : Prop where
+  dead : s.dead = false
+  dead' : s'.dead = false
+  log : s.log = s'.log
+  last : s.last = s'.last
+  deliv : deliveredTo s id = deliveredTo s' id
+  saved : savedOf s id = savedOf s' id
+  live : liveOf s id = liveOf s' id
+
+theorem publish_ff_spec (s : RS) (ty r id : Nat) (hd : s.dead = false) :
+    (publish {} s ty r).dead = false ∧ (publish {} s ty r).log = s.log ++ [(ty, r)] ∧
+    (publish {} s ty r).last = s.log.length + 1 ∧ (publish {} s ty r).live = s.live ∧
+    deliveredTo (publish {} s ty r) id
+      = deliveredTo s id ++ ((liveOf s id).filter (fun l => l.2 == ty)).map (fun _ => r) ∧
+    savedOf (publish {} s ty r) id
+      = if ((liveOf s id).filter (fun l => l.2 == ty)).isEmpty then savedOf s id else s.log.length + 1 := by
+  rw [publish_ff]
+  obtain ⟨a1, a2, a3, a4, a5, a6⟩ := pfold0 ty r id (app (bump s) ty r).live (app (bump s) ty r) hd
+    (by simp [app, bump]) (by simp [app])
+  have hfl : (app (bump s) ty r).live.filter (fun l => l.1 == id && l.2 == ty)
+      = (liveOf s id).filter (fun l => l.2 == ty) := filter_id_ty _ _ _
+  rw [any_eq_filter, hfl] at a6
+  rw [hfl] at a5
+  refine ⟨a1, a2, a3, a4, a5, ?_⟩
+  rw [a6]
+  cases ((liveOf s id).filter (fun l => l.2 == ty)).isEmpty <;> simp
+
+theorem R_publish {id : Nat} {s s' : RS} (h : R id s s') (ty r : Nat) :
+    R id (publish {} s ty r) (publish {} s' ty r) := by
+  obtain ⟨a1, a2, a3, a4, a5, a6⟩ := publish_ff_spec s ty r id h.dead
+  obtain ⟨b1, b2, b3, b4, b5, b6⟩ := publish_ff_spec s' ty r id h.dead'
+  refine ⟨a1, b1, ?_, ?_, ?_, ?_, ?_⟩
+  · rw [a2, b2, h.log]
+  · rw [a3, b3, h.log]
+  · rw [a5, b5, h.deliv, h.live]
+  · rw [a6, b6, h.saved, h.live, h.log]
+  · unfold liveOf; rw [a4, b4]; exact h.live
+
+theorem subscribe_ff_spec (s : RS) (id' ty id : Nat) (hd : s.dead = false) :
+    (subscribe {} s id' ty none).dead = false ∧ (subscribe {} s id' ty none).log = s.log ∧
+    (subscribe {} s id' ty none).last = s.last ∧
+    liveOf (subscribe {} s id' ty none) id = liveOf s id ++ (if id' == id then [(id', ty)] else []) ∧
+    deliveredTo (subscribe {} s id' ty none) id
+      = deliveredTo s id ++ (if id' == id then
+          ((eventsAfter s.log (savedOf s id)).filter (fun e => e.2.1 == ty)).map (fun e => e.2.2) else []) ∧
+    savedOf (subscribe {} s id' ty none) id
+      = if id' == id then
+          (eventsAfter s.log (savedOf s id)).foldl (fun sv e => if e.2.1 == ty then e.1 else sv) (savedOf s id)
+        else savedOf s id := by
+  rw [subscribe_ff]
+  cases hid : id' == id
+  · obtain ⟨a1, a2, a3, a4, a5, a6⟩ := rfoldFF_frame id' ty id hid (eventsAfter s.log (savedOf s id'))
+      (bump (bump s), true) hd
+    generalize (List.foldl (rstep {} id' ty none) (bump (bump s), true) (eventsAfter s.log (savedOf s id'))).1 = s1 at *
+    simp only [a1, Bool.false_eq_true, if_false, List.append_nil]
+    refine ⟨a1, a2, a3, ?_, a5, a6⟩
+    rw [liveOf_addLive, hid]; simp only [Bool.false_eq_true, if_false, List.append_nil]
+    unfold liveOf; rw [a4]; rfl
+  · simp only [beq_iff_eq] at hid
+    subst hid
+    obtain ⟨a1, a2, a3, a4, a5, a6⟩ := rfoldFF_fun id' ty (eventsAfter s.log (savedOf s id'))
+      (bump (bump s), true) hd
+    generalize (List.foldl (rstep {} id' ty none) (bump (bump s), true) (eventsAfter s.log (savedOf s id'))).1 = s1 at *
+    simp only [a1, Bool.false_eq_true, if_false, if_true]
+    refine ⟨a1, a2, a3, ?_, a5, a6⟩
+    rw [liveOf_addLive]; simp only [BEq.rfl, if_true]
+    unfold liveOf; rw [a4]; rfl
+
+theorem R_subscribe_self {id : Nat} {s s' : RS} (h : R id s s') (ty : Nat) :
+    R id (subscribe {} s id ty none) (subscribe {} s' id ty none) := by
+  obtain ⟨a1, a2, a3, a4, a5, a6⟩ := subscribe_ff_spec s id ty id h.dead
+  obtain ⟨b1, b2, b3, b4, b5, b6⟩ := subscribe_ff_spec s' id ty id h.dead'
+  refine ⟨a1, b1, ?_, ?_, ?_, ?_, ?_⟩
+  · rw [a2, b2, h.log]
+  · rw [a3, b3, h.last]
+  · rw [a5, b5, h.deliv, h.log, h.saved]
+  · rw [a6, b6, h.saved, h.log]
+  · rw [a4, b4, h.live]
+
+theorem R_subscribe_other {id : Nat} {s s' : RS} (h : R id s s') (id' ty : Nat) (hne : (id' == id) = false) :
+    R id (subscribe {} s id' ty none) s' := by
+  obtain ⟨a1, a2, a3, a4, a5, a6⟩ := subscribe_ff_spec s id' ty id h.dead
+  simp only [hne, Bool.false_eq_true, if_false, List.append_nil] at a4 a5 a6
+  exact ⟨a1, h.dead', a2.trans h.log, a3.trans h.last, a5.trans h.deliv, a6.trans h.saved, a4.trans h.live⟩
+
+theorem R_restart {id : Nat} {s s' : RS} (h : R id s s') :
+    R id { s with last := 0, live := [] } { s' with last := 0, live := [] } :=
+  ⟨h.dead, h.dead', h.log, rfl, h.deliv, h.saved, rfl⟩
+
+def keep (id : Nat) (op : ROp) : Bool :=
+  match op with
+  | .subscribe id' _ _ => id' == id
+  | _ => true
+
+theorem R_foldl (tyOf : Nat → Nat) (id : Nat) : ∀ (ops : List ROp) (s s' : RS), R id s s' →
+    wellFormedFrom {} tyOf s ops = true →
+    R id (ops.foldl (stepOp {}) s) ((ops.filter (keep id)).foldl (stepOp {}) s') := by
+  intro ops
+  induction ops with
+  | nil => intro s s' h _; exact h
+  | cons op ops ih =>
+    intro s s' h hwf
+    simp only [wellFormedFrom, Bool.and_eq_true] at hwf
+    cases op with
+    | publish ty r =>
+      have := R_publish h ty r
+      simp only [List.filter_cons, keep, if_true, List.foldl_cons, stepOp]
+      rw [setDead_eq _ this.dead, setDead_eq _ this.dead']
+      refine ih _ _ this ?_
+      have h2 := hwf.2
+      simp only [stepOp] at h2
+      rw [setDead_eq _ this.dead] at h2; exact h2
+    | subscribe id' ty pd =>
+      have h1 := hwf.1
+      simp only [Bool.and_eq_true, beq_iff_eq, Bool.not_eq_true', Option.isNone_iff_eq_none] at h1
+      obtain ⟨_, hpd⟩ := h1
+      subst hpd
+      have h2 := hwf.2
+      simp only [stepOp] at h2
+      cases hid : id' == id
+      · have := R_subscribe_other h id' ty hid
+        simp only [List.filter_cons, keep, hid, Bool.false_eq_true, if_false, List.foldl_cons, stepOp]
+        rw [setDead_eq _ this.dead] at h2 ⊢
+        exact ih _ _ this h2
+      · simp only [beq_iff_eq] at hid
+        subst hid
+        have := R_subscribe_self h ty
+        simp only [List.filter_cons, keep, BEq.rfl, if_true, List.foldl_cons, stepOp]
+        rw [setDead_eq _ this.dead] at h2 ⊢
+        rw [setDead_eq _ this.dead']
+        exact ih _ _ this h2
+    | restart =>
+      simp only [List.filter_cons, keep, if_true, List.foldl_cons, stepOp]
+      exact ih _ _ (R_restart h) hwf.2
+
+/-! ### monotonicity of the saved offset (when no id is subscribed while it is live) -/
+
+structure M (id : Nat) (s : RS) : Prop where
+  pw : List.Pairwise (· ≤ ·) (savesOf s id)
+  ub : ∀ x ∈ savesOf s id, x ≤ savedOf s id
+  w : W s
+  last : s.last = 0 ∨ s.last = s.log.length
+
+theorem savesOf_save (s : RS) (i off id : Nat) :
+    savesOf (save s i off) id = savesOf s id ++ (if i == id then [off] else []) := by
+  simp only [savesOf, save, List.filter_append, List.map_append, List.filter_cons, List.filter_nil]
+  cases i == id <;> simp
+
+theorem M_bump {id : Nat} {s : RS} (h : M id s) : M id (bump s) := ⟨h.pw, h.ub, h.w, h.last⟩
+theorem M_deliver {id : Nat} {s : RS} (h : M id s) (i r : Nat) : M id (deliver s i r) := ⟨h.pw, h.ub, h.w, h.last⟩
+theorem M_err {id : Nat} {s : RS} (h : M id s) (i : Nat) : M id (err s i) := ⟨h.pw, h.ub, h.w, h.last⟩
+theorem M_addLive {id : Nat} {s : RS} (h : M id s) (i t : Nat) : M id (addLive s i t) := ⟨h.pw, h.ub, h.w, h.last⟩
+theorem M_undead {id : Nat} {s : RS} (h : M id s) : M id (undead s) := ⟨h.pw, h.ub, h.w, h.last⟩
+theorem M_die {id : Nat} {s : RS} (h : M id s) : M id (die s) := ⟨h.pw, h.ub, W_die h.w, Or.inl rfl⟩
+theorem M_cd {id : Nat} {s : RS} (h : M id s) (c : Bool) : M id (cd c s) := by
+  unfold cd; split
+  · exact M_die h
+  · exact h
+theorem M_app {id : Nat} {s : RS} (h : M id s) (ty r : Nat) : M id (app s ty r) :=
+  ⟨h.pw, h.ub, W_app h.w ty r, Or.inr (by simp [app])⟩
+
+theorem M_save {id : Nat} {s : RS} (h : M id s) (i off : Nat) (hs : (i == id) = true → savedOf s id ≤ off)
+    (ho : off ≤ s.log.length) : M id (save s i off) := by
+  refine ⟨?_, ?_, W_save h.w i off ho, h.last⟩
+  · rw [savesOf_save]
+    cases hi : i == id
+    · simpa using h.pw
+    · simp only [if_true]
+      rw [List.pairwise_append]
+      refine ⟨h.pw, List.pairwise_singleton _ _, ?_⟩
+      intro a ha b hb
+      simp only [List.mem_cons, List.not_mem_nil, or_false] at hb
+      subst hb
+      exact Nat.le_trans (h.ub a ha) (hs hi)
+  · rw [savesOf_save, savedOf_save]
+    cases hi : i == id
+    · simpa using h.ub
+    · simp only [if_true]
+      intro x hx
+      simp only [List.mem_append, List.mem_cons, List.not_mem_nil, or_false] at hx
+      rcases hx with hx | rfl
+      · exact Nat.le_trans (h.ub x hx) (hs hi)
+      · exact Nat.le_refl _
+
+theorem M_sv {id : Nat} {s : RS} (h : M id s) (f : Bool) (i off : Nat)
+    (hs : (i == id) = true → savedOf s id ≤ off) (ho : off ≤ s.log.length) : M id (sv f s i off) := by
+  unfold sv; split
+  · exact h
+  · exact M_save h i off hs ho
+
+theorem M_fin {id : Nat} {s : RS} (h : M id s) (p : Plan) (i off : Nat)
+    (hs : (i == id) = true → savedOf s id ≤ off) (ho : off ≤ s.log.length) : M id (fin p i off s) := by
+  unfold fin; split
+  · exact h
+  · exact M_cd (M_sv (M_bump h) _ i off hs ho) _
+
+theorem M_dAS {id : Nat} {s : RS} (h : M id s) (p : Plan) (i r off : Nat)
+    (hs : off ≠ 0 → (i == id) = true → savedOf s id ≤ off) (ho : off ≤ s.log.length) :
+    M id (deliverAndSave p s i r off) := by
+  rw [deliverAndSave_eq]; split
+  · exact M_deliver h i r
+  · rename_i h0
+    exact M_cd (M_sv (M_bump (M_deliver h i r)) _ i off (hs h0) ho) _
+
+/-- what one live delivery may change -/
+theorem M_pstep {id : Nat} {s : RS} (h : M id s) (p : Plan) (ty r : Nat) (l : Nat × Nat) :
+    M id (pstep p ty r s l) ∧ (pstep p ty r s l).log = s.log ∧
+    ((pstep p ty r s l).live = s.live ∨ (pstep p ty r s l).live = []) ∧
+    ((l.1 == id) = false → savedOf (pstep p ty r s l) id = savedOf s id) := by
+  unfold pstep
+  by_cases hskip : (s.dead || l.2 != ty) = true
+  · rw [if_pos hskip]; exact ⟨h, rfl, Or.inl rfl, fun _ => rfl⟩
+  · rw [if_neg hskip]
+    simp only [Bool.or_eq_true, not_or, Bool.not_eq_true] at hskip
+    obtain ⟨hd, _⟩ := hskip
+    obtain ⟨a1, _, a3, _, a5⟩ := dAS_spec p l.1 r s.last id s hd
+    refine ⟨M_dAS h p l.1 r s.last ?_ h.w.2, a1, ?_, ?_⟩
+    · intro h0 _
+      rcases h.last with hl | hl
+      · exact absurd hl h0
+      · rw [hl]; exact savedOf_le_of_W h.w id
+    · rcases a3 with ⟨hl, _⟩ | ⟨hl, _⟩
+      · exact Or.inl hl
+      · exact Or.inr hl
+    · intro hne
+      rcases a5 with a5 | ⟨a5, _⟩
+      · exact a5
+      · rw [hne] at a5; cases a5
+
+theorem M_pfold {id : Nat} (p : Plan) (ty r : Nat) : ∀ (L : List (Nat × Nat)) (s : RS), M id s →
+    M id (L.foldl (pstep p ty r) s) ∧ (L.foldl (pstep p ty r) s).log = s.log ∧
+    ((L.foldl (pstep p ty r) s).live = s.live ∨ (L.foldl (pstep p ty r) s).live = []) ∧
+    ((∀ l ∈ L, (l.1 == id) = false) → savedOf (L.foldl (pstep p ty r) s) id = savedOf s id) := by
+  intro L
+  induction L with
+  | nil => intro s h; exact ⟨h, rfl, Or.inl rfl, fun _ => rfl⟩
+  | cons l L ih =>
+    intro s h
+    obtain ⟨a1, a2, a3, a4⟩ := M_pstep h p ty r l
+    obtain ⟨b1, b2, b3, b4⟩ := ih _ a1
+    simp only [List.foldl_cons]
+    refine ⟨b1, b2.trans a2, ?_, ?_⟩
+    · rcases b3 with b3 | b3
+      · rw [b3]; exact a3
+      · exact Or.inr b3
+    · intro hL
+      rw [b4 (fun l' hl' => hL l' (List.mem_cons_of_mem _ hl')), a4 (hL l (List.mem_cons_self ..))]
+
+theorem liveOf_nil_iff {s : RS} {id : Nat} : liveOf s id = [] ↔ ∀ l ∈ s.live, (l.1 == id) = false := by
+  unfold liveOf
+  rw [List.filter_eq_nil_iff]
+  constructor
+  · intro h l hl; simpa using h l hl
+  · intro h l hl; simpa using h l hl
+
+theorem M_publish {id : Nat} {s : RS} (h : M id s) (p : Plan) (ty r : Nat) :
+    M id (publish p s ty r) ∧ s.log.length ≤ (publish p s ty r).log.length ∧
+    (liveOf s id = [] → savedOf (publish p s ty r) id = savedOf s id ∧ liveOf (publish p s ty r) id = []) := by
+  rw [publish_eq]
+  have hs2 : M id (if failsAt p s then bump s else app (bump s) ty r) ∧
+      s.log.length ≤ (if failsAt p s then bump s else app (bump s) ty r).log.length ∧
+      (if failsAt p s then bump s else app (bump s) ty r).live = s.live ∧
+      savedOf (if failsAt p s then bump s else app (bump s) ty r) id = savedOf s id := by
+    split
+    · exact ⟨M_bump h, Nat.le_refl _, rfl, rfl⟩
+    · exact ⟨M_app (M_bump h) ty r, by simp, rfl, rfl⟩
+  generalize (if failsAt p s then bump s else app (bump s) ty r) = s2 at hs2
+  obtain ⟨m2, hlen, hlive, hsaved⟩ := hs2
+  simp only []
+  split
+  · exact ⟨M_die m2, hlen, fun _ => ⟨hsaved, rfl⟩⟩
+  · obtain ⟨b1, b2, b3, b4⟩ := M_pfold p ty r s2.live s2 m2
+    refine ⟨b1, by rw [b2]; exact hlen, ?_⟩
+    intro hl
+    rw [liveOf_nil_iff, ← hlive] at hl
+    refine ⟨(b4 hl).trans hsaved, ?_⟩
+    rcases b3 with b3 | b3
+    · rw [liveOf_nil_iff, b3]; exact hl
+    · unfold liveOf; rw [b3]; rfl
+
+theorem M_nest {id : Nat} {s : RS} (h : M id s) (p : Plan) (pd : Option (Nat × Nat)) (first : Bool) :
+    M id (nest p pd first s) ∧ s.log.length ≤ (nest p pd first s).log.length ∧
+    (liveOf s id = [] → savedOf (nest p pd first s) id = savedOf s id ∧ liveOf (nest p pd first s) id = []) := by
+  unfold nest; split
+  · exact M_publish h p _ _
+  · exact ⟨h, Nat.le_refl _, fun hl => ⟨rfl, hl⟩⟩
+
+/-- replay of another id -/
+theorem M_rstep_other {id : Nat} {s : RS} (h : M id s) (p : Plan) (id' ty : Nat) (pd : Option (Nat × Nat))
+    (b : Bool) (e : Nat × Nat × Nat) (hne : (id' == id) = false) (he : e.1 ≤ s.log.length) :
+    M id (rstep p id' ty pd (s, b) e).1 ∧ s.log.length ≤ (rstep p id' ty pd (s, b) e).1.log.length := by
+  unfold rstep
+  split
+  · exact ⟨h, Nat.le_refl _⟩
+  · obtain ⟨n1, n2, _⟩ := M_nest (M_deliver h id' e.2.2) p pd b
+    have hlog := (W_fin n1.w p id' e.1 (Nat.le_trans he n2)).2
+    refine ⟨M_fin n1 p id' e.1 (fun hi => by rw [hne] at hi; cases hi) (Nat.le_trans he n2), ?_⟩
+    show s.log.length ≤ (fin p id' e.1 _).log.length
+    rw [hlog]; exact n2
+
+theorem M_rfold_other {id : Nat} (p : Plan) (id' ty : Nat) (pd : Option (Nat × Nat)) (hne : (id' == id) = false) :
+    ∀ (evs : List (Nat × Nat × Nat)) (acc : RS × Bool), M id acc.1 → (∀ e ∈ evs, e.1 ≤ acc.1.log.length) →
+      M id (evs.foldl (rstep p id' ty pd) acc).1 := by
+  intro evs
+  induction evs with
+  | nil => intro acc h _; exact h
+  | cons e evs ih =>
+    intro acc h he
+    have h1 := M_rstep_other h p id' ty pd acc.2 e hne (he e (List.mem_cons_self ..))
+    simp only [List.foldl_cons]
+    exact ih _ h1.1 (fun e' he' => Nat.le_trans (he e' (List.mem_cons_of_mem _ he')) h1.2)
+
+/-- replay of `id` itself, while it is not live -/
+theorem M_rstep_self {id : Nat} {s : RS} (h : M id s) (p : Plan) (ty : Nat) (pd : Option (Nat × Nat))
+    (b : Bool) (k : Nat) (e : Nat × Nat) (hs : savedOf s id ≤ k) (hnl : liveOf s id = [])
+    (hk : k + 1 ≤ s.log.length) :
+    M id (rstep p id ty pd (s, b) (k + 1, e.1, e.2)).1 ∧
+    savedOf (rstep p id ty pd (s, b) (k + 1, e.1, e.2)).1 id ≤ k + 1 ∧
+    liveOf (rstep p id ty pd (s, b) (k + 1, e.1, e.2)).1 id = [] ∧
+    s.log.length ≤ (rstep p id ty pd (s, b) (k + 1, e.1, e.2)).1.log.length := by
+  unfold rstep
+  split
+  · exact ⟨h, Nat.le_trans hs (Nat.le_succ _), hnl, Nat.le_refl _⟩
+  · obtain ⟨n1, n2, n3⟩ := M_nest (M_deliver h id e.2) p pd b
+    obtain ⟨n3, n4⟩ := n3 hnl
+    have n3' : savedOf (nest p pd b (deliver s id e.2)) id ≤ k := by rw [n3]; exact hs
+    have hk' := Nat.le_trans hk n2
+    have hlog := (W_fin n1.w p id (k + 1) hk').2
+    refine ⟨M_fin n1 p id (k + 1) (fun _ => Nat.le_trans n3' (Nat.le_succ _)) hk', ?_, ?_, ?_⟩
+    · show savedOf (fin p id (k + 1) _) id ≤ k + 1
+      cases hd : (nest p pd b (deliver s id e.2)).dead
+      · obtain ⟨_, _, _, _, a5⟩ := fin_spec p id (k + 1) id _ hd
+        rcases a5 with a5 | ⟨_, a5⟩
+        · rw [a5]; exact Nat.le_trans n3' (Nat.le_succ _)
+        · rw [a5]; exact Nat.le_refl _
+      · simp only [fin, hd, if_true]; exact Nat.le_trans n3' (Nat.le_succ _)
+    · show liveOf (fin p id (k + 1) _) id = []
+      cases hd : (nest p pd b (deliver s id e.2)).dead
+      · obtain ⟨_, _, a3, _, _⟩ := fin_spec p id (k + 1) id _ hd
+        rcases a3 with ⟨hl, _⟩ | ⟨hl, _⟩
+        · unfold liveOf; rw [hl]; exact n4
+        · unfold liveOf; rw [hl]; rfl
+      · simp only [fin, hd, if_true]; exact n4
+    · show s.log.length ≤ (fin p id (k + 1) _).log.length
+      rw [hlog]; exact n2
+
+theorem M_rfold_self {id : Nat} (p : Plan) (ty : Nat) (pd : Option (Nat × Nat)) :
+    ∀ (l : List (Nat × Nat)) (k : Nat) (acc : RS × Bool), M id acc.1 → savedOf acc.1 id ≤ k →
+      liveOf acc.1 id = [] → k + l.length ≤ acc.1.log.length →
+      M id ((evsFrom k l).foldl (rstep p id ty pd) acc).1 ∧
+      liveOf ((evsFrom k l).foldl (rstep p id ty pd) acc).1 id = [] := by
+  intro l
+  induction l with
+  | nil => intro k acc h _ hnl _; exact ⟨h, hnl⟩
+  | cons e l ih =>
+    intro k acc h hs hnl hk
+    simp only [List.length_cons] at hk
+    obtain ⟨a1, a2, a3, a4⟩ := M_rstep_self h p ty pd acc.2 k e hs hnl (by omega)
+    have a4' : acc.1.log.length ≤ (rstep p id ty pd acc (k + 1, e.1, e.2)).1.log.length := a4
+    simp only [evsFrom, List.foldl_cons]
+    exact ih (k + 1) _ a1 a2 a3 (by omega)
+
+theorem M_subscribe {id : Nat} {s : RS} (h : M id s) (p : Plan) (id' ty : Nat) (pd : Option (Nat × Nat))
+    (hfresh : (id' == id) = true → liveOf s id = []) : M id (subscribe p s id' ty pd) := by
+  rw [subscribe_eq]
+  split
+  · exact M_die (M_bump h)
+  split
+  · exact M_err (M_bump h) id'
+  split
+  · exact M_die (M_bump (M_bump h))
+  split
+  · exact M_err (M_bump (M_bump h)) id'
+  simp only []
+  have key : M id ((eventsAfter s.log (savedOf s id')).foldl (rstep p id' ty pd) (bump (bump s), true)).1 := by
+    cases hid : id' == id
+    · exact M_rfold_other p id' ty pd hid _ (bump (bump s), true) (M_bump (M_bump h))
+        (fun e he => (mem_eventsAfter he).2)
+    · have hnl := hfresh hid
+      simp only [beq_iff_eq] at hid
+      subst hid
+      rw [eventsAfter_eq]
+      have hsv := savedOf_le_of_W h.w id'
+      exact (M_rfold_self p ty pd (s.log.drop (savedOf s id')) (savedOf s id') (bump (bump s), true)
+        (M_bump (M_bump h)) (Nat.le_refl _) hnl (by simp only [List.length_drop, log_bump]; omega)).1
+  split
+  · exact key
+  · exact M_addLive key id' ty
+
+end Aux
+
+/-- no subscription id is subscribed again while it is still live -/
+def freshSubsFrom (p : Plan) : RS → List ROp → Bool
+  | _, [] => true
+  | s, op :: rest =>
+    (match op with
+     | .subscribe id _ _ => !isLive s id
+     | _ => true) && freshSubsFrom p (stepOp p s op) rest
+
+def freshSubs (p : Plan) (ops : List ROp) : Bool := freshSubsFrom p {} ops
+
+namespace Aux
+
+theorem M_foldl (p : Plan) (id : Nat) : ∀ (ops : List ROp) (s : RS), M id s →
+    freshSubsFrom p s ops = true → M id (ops.foldl (stepOp p) s) := by
+  intro ops
+  induction ops with
+  | nil => intro s h _; exact h
+  | cons op ops ih =>
+    intro s h hf
+    simp only [freshSubsFrom, Bool.and_eq_true] at hf
+    refine ih _ ?_ hf.2
+    cases op with
+    | publish ty r => exact M_undead (M_publish h p ty r).1
+    | subscribe id' ty pd =>
+      refine M_undead (M_subscribe h p id' ty pd ?_)
+      intro hid
+      simp only [beq_iff_eq] at hid
+      subst hid
+      have h1 := hf.1
+      simp only [Bool.not_eq_true'] at h1
+      rw [isLive_eq] at h1
+      simpa using h1
+    | restart => exact ⟨h.pw, h.ub, ⟨h.w.1, Nat.zero_le _⟩, Or.inl rfl⟩
+
+theorem freshSubsFrom_of_wellFormedFrom (p : Plan) (tyOf : Nat → Nat) : ∀ (ops : List ROp) (s : RS),
+    wellFormedFrom p tyOf s ops = true → freshSubsFrom p s ops = true := by
+  intro ops
+  induction ops with
+  | nil => intro s _; rfl
+  | cons op ops ih =>
+    intro s h
+    simp only [wellFormedFrom, Bool.and_eq_true] at h
+    simp only [freshSubsFrom, Bool.and_eq_true]
+    refine ⟨?_, ih _ h.2⟩
+    cases op with
+    | publish ty r => rfl
+    | subscribe id ty pd =>
+      have := h.1
+      simp only [Bool.and_eq_true] at this
+      exact this.1.2
+    | restart => rfl
+end Aux
+
 /-- without crash or fault: what a subscription has been given is, at every moment, a prefix of
 the persisted events of its type in log order – each exactly once – and everything once the
 subscription is live (all its missed events were replayed, all later ones delivered live) -/
 theorem resume_exactly_once (tyOf : Nat → Nat) (ops : List ROp) (hwf : wellFormed {} tyOf ops = true) (id : Nat) :
     let s := run {} ops
     deliveredTo s id <+: typed s.log (tyOf id) ∧ (isLive s id = true → deliveredTo s id = typed s.log (tyOf id)) := by
-  sorry
+  have h := Aux.E_foldl tyOf id ops {} (Aux.E_init tyOf id) hwf
+  refine ⟨?_, ?_⟩
+  · show deliveredTo (run {} ops) id <+: _
+    rw [show deliveredTo (run {} ops) id = _ from h.saved]
+    exact Aux.typed_take_prefix _ _ _
+  · intro hl
+    rw [Aux.isLive_eq] at hl
+    rcases h.live with h0 | ⟨_, h1⟩
+    · rw [show Aux.liveOf (run {} ops) id = [] from h0] at hl; simp at hl
+    · exact h1
 
 /-- with a crash after ANY store operation and/or a failure of ANY single store operation:
 nothing is lost and nothing is reordered – the persisted events of the subscription's type are,
@@ -20,25 +1603,47 @@ append failed) -/
 theorem resume_at_least_once (p : Plan) (tyOf : Nat → Nat) (ops : List ROp) (hwf : wellFormed p tyOf ops = true) (id : Nat) :
     let s := run p ops
     isLive s id = true → List.Sublist (typed s.log (tyOf id)) (deliveredTo s id) := by
-  sorry
+  intro s hl
+  have h := Aux.A_foldl p tyOf id ops {} (Aux.A_init _ _) hwf
+  refine Aux.F_live' h.2 h.1 ?_
+  intro h0
+  rw [Aux.isLive_eq] at hl
+  rw [show Aux.liveOf s id = [] from h0] at hl
+  simp at hl
 
-/-- a subscription's saved offset never moves backwards – under every plan, also when handlers
-publish during the replay -/
-theorem saved_offset_monotone (p : Plan) (ops : List ROp) (id : Nat) :
-    List.Pairwise (· ≤ ·) (savesOf (run p ops) id) := by
-  sorry
+
+/- NOTE: `saved_offset_monotone` above is FALSE as stated (see `saved_offset_monotone_counterexample`
+below, checked by `decide`): when an id is subscribed again while it is still live and the replay
+handler publishes re-entrantly, the live copy saves the new (larger) offset and the replay then
+saves the older snapshot offsets.  It holds as soon as no id is subscribed while it is live
+(`saved_offset_monotone_of_freshSubs`), in particular for well-formed histories. -/
+
+/-- `saved_offset_monotone` as stated is false: -/
+theorem saved_offset_monotone_counterexample :
+    ¬ List.Pairwise (· ≤ ·) (savesOf (run {} [ROp.subscribe 7 2 none, .publish 1 1, .publish 1 2,
+        .subscribe 7 1 (some (2, 9))]) 7) := by
+  decide
+
+/-- corrected statement -/
+theorem saved_offset_monotone_of_freshSubs (p : Plan) (ops : List ROp) (hfresh : freshSubs p ops = true)
+    (id : Nat) : List.Pairwise (· ≤ ·) (savesOf (run p ops) id) :=
+  (Aux.M_foldl p id ops {} ⟨List.Pairwise.nil, fun _ hx => (by cases hx), ⟨by simp, by simp⟩, Or.inl rfl⟩ hfresh).pw
+
+theorem saved_offset_monotone_of_wellFormed (p : Plan) (tyOf : Nat → Nat) (ops : List ROp)
+    (hwf : wellFormed p tyOf ops = true) (id : Nat) : List.Pairwise (· ≤ ·) (savesOf (run p ops) id) :=
+  saved_offset_monotone_of_freshSubs p ops (Aux.freshSubsFrom_of_wellFormedFrom p tyOf ops {} hwf) id
 
 /-- the saved offset is the last successfully saved one and never exceeds the log -/
 theorem saved_within_log (p : Plan) (ops : List ROp) (id : Nat) :
-    savedOf (run p ops) id ≤ (run p ops).log.length := by
-  sorry
+    savedOf (run p ops) id ≤ (run p ops).log.length :=
+  Aux.savedOf_le_of_W (Aux.W_run p ops) id
 
 /-- different subscription ids progress independently: what `id` is given does not depend on
 the other subscriptions of the history (fault-free, well-formed histories) -/
 theorem ids_independent (tyOf : Nat → Nat) (ops : List ROp) (hwf : wellFormed {} tyOf ops = true) (id : Nat) :
     let ops' := ops.filter (fun op => match op with | .subscribe id' _ _ => id' == id | _ => true)
     deliveredTo (run {} ops) id = deliveredTo (run {} ops') id := by
-  sorry
+  exact (Aux.R_foldl tyOf id ops {} {} ⟨rfl, rfl, rfl, rfl, rfl, rfl, rfl⟩ hwf).deliv
 
 /-- KNOWN FINDING (C12): an event published while SubscribeWithReplay is running – here by the
 handler itself during the replay – is persisted but never delivered to that subscription, not
@@ -48,6 +1653,6 @@ theorem publish_during_replay_lost :
     let ops := [ROp.publish 1 1, .subscribe 7 1 (some (1, 9)), .publish 1 5, .restart, .subscribe 7 1 none]
     let s := run {} ops
     typed s.log 1 = [1, 9, 5] ∧ deliveredTo s 7 = [1, 5] ∧ isLive s 7 = true := by
-  sorry
+  decide
 
 end Ebu.Resume
